@@ -1,33 +1,66 @@
 """C15 — ground tracks and mission distances are true WGS-84 great circles.
 
+R1 is lexical (argument roles); R7 and R8 are store rules.  R2-R6 are decided on *values*: the public queries of
+GroundTrack (`__contains__`, `__len__`, `__getitem__`, `total_distance`, `waypoint_distance`, `lookup_waypoint`,
+`location`, `step`, `great_circle`) and `Mission.gc_distance` are executed symbolically (the engine of C06: every
+branch a path condition, resolved helpers / static methods / properties / factories inlined, locals replaced by what
+they were bound to) and the resulting path conditions and values are evaluated on sample tracks (2 and 4 way-points,
+and one with a repeated fix; overstepping allowed and not) in a *free model of the geodesic*: `GEOD.fwd` and `GEOD.inv`
+are uninterpreted functions (one deterministic draw per distinct argument tuple, with the symmetries of the real ones),
+way-points have distinct coordinates, the rest is ordinary arithmetic.  Two results agree in that model exactly when
+they are the same geodesic computation on the same arguments, so what a query returns is compared with the reference
+formula of the property whatever helpers, temporaries, accessors or control flow the code is written with; no method
+other than the public ones is looked up by name.  The sequences of a sample track (the way-point list given to the
+constructor, the list-valued attributes of the track) are presented to the engine as displays of their elements, and
+the engine is told that a slice of a display is a display and that pyproj works element by element on sequences, so
+loops and comprehensions over way-points, legs or the cumulative index unroll (`list.append` on a local or on a
+field included); a loop over anything else, or an object changed in place in another way, is UNDECIDED.  What cannot
+be evaluated is UNDECIDED; a difference from the reference is a violation only when it is recognised as a specific
+mistake.
+
 R1  argument roles of every geodesic call (T-ROLE): pyproj.Geod.inv takes
     (lon1, lat1, lon2, lat2), fwd takes (lon, lat, azimuth, distance); wrappers
     that forward their parameters get the derived signature and their callers
-    are checked against it.  The instance floor counts the call sites in, or
-    reached through resolved calls from, ground_track.py and mission.py.
-R2  azimuth convention: the single Point constructor normalises with % 360 and
-    every point handed out is built by it.
-R3  step(a, b) is location(a + b) / _overstep(a + b).
-R4  overstep only behind its guard; out-of-range requests raise before any
-    indexing.
-R5  leg coherence: in every forward-geodesic evaluation of the ground track the
-    start waypoint, the leg azimuth and the cumulative distance subtracted
-    refer to the same leg (index expressions compared as polynomials).  An
-    evaluation is a GEOD.fwd call in a GroundTrack method or in anything it
-    reaches; a helper that forwards its parameters to the call is judged at
-    its call sites, with the arguments substituted (through several levels,
-    positional or keyword).
-R6  which component of a geodesic result is used as what, by def-use and not
-    by spelling (`call[i]`, unpacking, a local bound to either): the leg
-    azimuths are component [0] and the summed leg lengths component [2] of
-    the one inverse geodesic over (waypoint i, waypoint i+1) pairs; the
-    cumulative index is their running sum starting at 0 (accumulate([0] + D),
-    accumulate(D, initial=0), [0] + accumulate(D), cumsum forms); stored
-    waypoints and leg coordinates are one sequence; the azimuth of an
-    interpolated point is component [0] of the geodesic from the returned
-    point to the waypoint that ends the leg it was interpolated on (R5's leg
-    + 1); the mission distance is component [2] between origin and
-    destination.
+    are checked against it.  The instance floor counts the evaluations in, or
+    reached through resolved calls from, ground_track.py and mission.py (a call
+    site in a shared helper counts once per call site of the helper).
+R2  azimuth convention: every point handed out by `[i]`, location(), step() and
+    great_circle() on the sample tracks carries an azimuth in [0, 360) - whether
+    the constructor of the point, a factory or each site reduces it (positive
+    control: the sample tracks produce raw azimuths of both signs); no function
+    outside the point class stores to the azimuth of a point.
+R3  step(a, b) is location(a + b), by value, for every sampled step that stays
+    on one leg (from inside a leg, from a way-point, of length 0, up to the end
+    of the leg); a step across a way-point is either refused or location(a + b).
+R4  refusals: a distance is on the track exactly when it lies in [first, last]
+    cumulative distance; lookup_waypoint() and location() raise for distances
+    outside it (location() beyond the end with overstepping allowed: raises or
+    hands out the continuation of R6) and answer every distance inside; step()
+    raises for a negative start or step; a step that ends beyond the track
+    raises when overstepping is not allowed and is answered when it is; private
+    helpers that evaluate a forward geodesic are called from the class only.
+R5  leg coherence: for every forward geodesic evaluated by a sampled query the
+    start point is (longitude, latitude) of one way-point, the azimuth is that
+    of the leg starting there and the distance is the requested distance minus
+    that way-point's cumulative distance; inside the track that leg is the one
+    containing the distance, beyond it the final leg.  Forward-geodesic calls
+    of the ground track that no sampled query reaches are judged on their
+    argument expressions instead (index expressions compared as polynomials,
+    helpers judged at their call sites with the arguments substituted).
+R6  results are the reference: location(d) inside leg k is (component [0],
+    component [1]) of fwd(way-point k, azimuth of leg k, d - cumulative distance
+    of k) with the azimuth from there to way-point k+1 (component [0] of that
+    inverse geodesic, or [1] of the reverse one); a step beyond the end is the
+    same on the final leg with the azimuth from the last way-point to the point;
+    `[i]` is way-point i with the azimuth of leg i; total_distance /
+    waypoint_distance(i) are the running sums from 0 of the leg lengths
+    (component [2] of the inverse geodesic over consecutive way-points);
+    len() is the number of way-points given (so the stored way-points, the leg
+    azimuths and the cumulative index describe one sequence, also when a fix is
+    repeated); great_circle(a, b) is the track [a, b]; Mission.gc_distance is
+    component [2] of the inverse geodesic between origin_position and
+    destination_position, in both directions, with default and with generic
+    non-default values in every other field of the mission.
 R7  queries are pure: no GroundTrack method other than the constructor stores
     to self.
 R8  the mission distance is only ever the geodesic: the memoised properties of
@@ -44,17 +77,25 @@ R8  the mission distance is only ever the geodesic: the memoised properties of
 from __future__ import annotations
 
 import ast
+import bisect as _bisect
 import copy
+import itertools as _it
+import math
+import operator
+import re
 
 from ..algebra import normal_form
-from ..astutil import first_stmt, last_stmt  # noqa: F401
-from ..astutil import (ancestors, call_name, calls_in, guards_of, norm, single_def_value, stmt_of, stores_to,
-                       tuple_def_component, walk_no_nested)
-from ..cfg import CFG
+from ..loader import AnalysisError, dotted_name
+from ..astutil import MUTATING_METHODS, ancestors, call_name, calls_in, norm, single_def_value, stores_to, walk_no_nested
 from ..resolve import callers_of, closure
-from ..roles import GEOD_SIG, check_geod_call, expr_role, geod_calls, wrapper_signature
+from ..roles import GEOD_SIG, check_geod_call, expr_role, geod_calls, ident_role, wrapper_signature
 
 GT = 'trajectories/ground_track.py'
+
+
+def canon(e) -> str:
+    return '<nothing>' if e is None else norm(e)
+
 MI = 'missions/mission.py'
 OTHER_PROPERTY = {'src/AEIC/missions/writable_database.py': 'C13-R1'}
 
@@ -70,8 +111,12 @@ def rule_roles(ctx):
         fns += [f for f in reach if f not in fns]
     sites = geod_calls(prog, fns)
     # module-level code (scripts, notebooks) in the thorough tier
-    ctx.floor('C15-R1', len([s for s in sites if s[0] in reach]), 5,
-              'geodesic call sites in, or reached from, ground_track.py and mission.py')
+    # a call site in a helper stands for as many evaluations as the helper has call sites (two evaluations merged into
+    # one shared helper are still two)
+    reach_keys = {(f.file, f.qualname) for f in reach}
+    n_eval = sum(max(1, sum(1 for caller, _ in callers_of(prog, s[0]) if (caller.file, caller.qualname) in reach_keys))
+                 for s in sites if (s[0].file, s[0].qualname) in reach_keys)
+    ctx.floor('C15-R1', n_eval, 5, 'geodesic evaluations in, or reached from, ground_track.py and mission.py')
     unresolved = 0
     for fi, c, kind in sites:
         if fi.file in OTHER_PROPERTY:
@@ -117,141 +162,11 @@ def rule_roles(ctx):
 
 
 def rule_track(ctx):
+    """R2-R8 of the ground track (re-used by C02 for the leg coherence of the positions it records)."""
     prog = ctx.prog
     m = prog.module(GT)
-    # R2
-    pi = m.functions.get('GroundTrack.Point.__post_init__')
-    ctor_normalises = False
-    if pi is not None:
-        sts = [st for t, st, how in stores_to(pi.node) if norm(t) == 'self.azimuth']
-        ctor_normalises = len(sts) == 1 and (norm(sts[0].value) in ('self.azimuth % 360.0', 'self.azimuth % 360') or
-                                             (isinstance(sts[0], ast.AugAssign) and isinstance(sts[0].op, ast.Mod)
-                                              and norm(sts[0].value) in ('360.0', '360')))
-        ctx.ob('C15-R2', pi, 'azimuth normalised to [0, 360)', ctor_normalises,
-               norm(sts[0]) if ctor_normalises else 'Point no longer normalises azimuths with % 360', nontrivial=True)
-    if not ctor_normalises:
-        # the other sound design: every place that builds a Point passes an azimuth that is already normalised
-        def normalised(fi, e, depth=0):
-            if isinstance(e, ast.BinOp) and isinstance(e.op, ast.Mod) and norm(e.right) in ('360', '360.0'):
-                return True
-            if isinstance(e, ast.Call):
-                from ..resolve import resolve_call
-                h = resolve_call(prog, fi, e)
-                if h is not None:
-                    rets = [r.value for r in walk_no_nested(h.node) if isinstance(r, ast.Return) and r.value is not None]
-                    return bool(rets) and all(normalised(h, r, depth + 1) for r in rets)
-                if call_name(e) == 'float' and e.args:
-                    return normalised(fi, e.args[0], depth + 1)
-            if isinstance(e, ast.Subscript) and norm(e.value).startswith('self.'):
-                attr = norm(e.value)
-                defs = [st for f2 in m.functions.values() for t, st, how in stores_to(f2.node) if norm(t) == attr]
-                ok_ = bool(defs)
-                for d in defs:
-                    v = getattr(d, 'value', None)
-                    if isinstance(v, (ast.ListComp, ast.GeneratorExp)):
-                        ok_ = ok_ and normalised(fi, v.elt, depth + 1)
-                    elif v is not None and isinstance(v, ast.BinOp):
-                        ok_ = ok_ and normalised(fi, v, depth + 1)
-                    else:
-                        ok_ = False
-                return ok_
-            if isinstance(e, ast.Name) and depth < 4:
-                defs = [st for t, st, how in stores_to(fi.node) if isinstance(t, ast.Name) and t.id == e.id]
-                return bool(defs) and all(getattr(d, 'value', None) is not None and normalised(fi, d.value, depth + 1) for d in defs)
-            return False
-        nsites = 0
-        for fi in m.functions.values():
-            for c in calls_in(fi.node):
-                if call_name(c) in ('GroundTrack.Point', 'self.Point', 'Point') and (len(c.args) >= 2 or any(k.arg == 'azimuth' for k in c.keywords)):
-                    az = c.args[1] if len(c.args) >= 2 else next(k.value for k in c.keywords if k.arg == 'azimuth')
-                    nsites += 1
-                    ok = normalised(fi, az)
-                    ctx.ob('C15-R2', fi, f'Point(…, {norm(az)[:40]}) receives a normalised azimuth', ok,
-                           'reduced modulo 360 before the point is built' if ok else
-                           ('the point constructor does not normalise, and this site passes the raw geodesic azimuth '
-                            '(−180, 180]: points built here can report a negative azimuth'), line=c.lineno)
-        ctx.floor('C15-R2/sites', nsites, 3, 'Point construction sites')
-    for qn in ('GroundTrack.location', 'GroundTrack._overstep', 'GroundTrack.__getitem__', 'GroundTrack.step'):
-        fi = m.func(qn)
-        for r in [n for n in walk_no_nested(fi.node) if isinstance(n, ast.Return) and n.value is not None]:
-            v = r.value
-            ok = isinstance(v, ast.Call) and call_name(v) in (
-                'GroundTrack.Point', 'self.Point', 'Point', 'self.location', 'self._overstep')
-            ctx.ob('C15-R2', fi, f'return {norm(v)[:60]}', ok,
-                   'built by the normalising constructor' if ok else
-                   'a point is handed out without passing the normalising constructor', line=r.lineno,
-                   nontrivial=False)
-    for fi in m.functions.values():
-        for t, st, how in stores_to(fi.node):
-            if isinstance(t, ast.Attribute) and t.attr == 'azimuth' and (pi is None or fi.qualname != pi.qualname):
-                ctx.ob('C15-R2', fi, norm(st), False, 'azimuth overwritten outside the normalising constructor',
-                       line=st.lineno)
-
-    # R3 / R4
-    st_ = m.func('GroundTrack.step')
-    p_from, p_step = st_.params[1], st_.params[2]
-    total = {f'{p_from} + {p_step}', f'{p_step} + {p_from}'}
-    g = CFG(st_.node)
-    for c in calls_in(st_.node):
-        cn = call_name(c)
-        if cn in ('self.location', 'self._overstep'):
-            ok = len(c.args) == 1 and norm(c.args[0]) in total
-            ctx.ob('C15-R3', st_, f'{cn}({norm(c.args[0]) if c.args else ""})', ok,
-                   'locates the sum of start distance and step' if ok else
-                   'stepping from a by b is not locating a + b', line=c.lineno)
-        if cn == 'self._overstep':
-            gs = guards_of(c)
-            # some dominating raise under `not self.allow_overstep` must precede in the same arm
-            arm = stmt_of(c)
-            body = getattr(arm, '_parent', None)
-            sibs = []
-            for a in ancestors(c):
-                if isinstance(a, ast.If):
-                    sibs = a.orelse if any(arm is s or _in(arm, s) for s in a.orelse) else a.body
-                    break
-            guard_ok = any(isinstance(s, ast.If) and norm(s.test) == 'not self.allow_overstep'
-                           and isinstance(first_stmt(s.body), ast.Raise) for s in sibs
-                           if s.lineno < c.lineno)
-            ctx.ob('C15-R4', st_, 'overstep only when allowed', guard_ok,
-                   '`if not self.allow_overstep: raise` precedes the overstep' if guard_ok else
-                   'a step beyond the track is taken although overstepping is not allowed', line=c.lineno)
-    neg = [n for n in walk_no_nested(st_.node) if isinstance(n, ast.If) and n.body
-           and isinstance(first_stmt(n.body), ast.Raise) and f'{p_from} < 0' in norm(n.test) and f'{p_step} < 0' in norm(n.test)]
-    ctx.ob('C15-R4', st_, 'negative distances refused', bool(neg),
-           norm(neg[0].test) if neg else 'negative start distance or step is no longer refused', nontrivial=False)
-    callers = callers_of(prog, m.func('GroundTrack._overstep'))
-    ok = all(c.qualname == 'GroundTrack.step' for c, _ in callers) and callers
-    ctx.ob('C15-R4', m.func('GroundTrack._overstep'), 'called only from step', bool(ok),
-           'single guarded call site' if ok else f'called from {[c.qualname for c, _ in callers]}')
-    lw = m.func('GroundTrack.lookup_waypoint')
-    g = CFG(lw.node)
-    dom = g.dominators(edge_ok=lambda a, b, lab: lab != 'e')
-    gate = None
-    for n in g.nodes:
-        if n.kind == 'stmt' and isinstance(n.stmt, ast.Raise):
-            gs = guards_of(n.stmt)
-            if any(norm(t) == f'{lw.params[1]} not in self' and pol for t, pol, _ in gs):
-                gate = [x for _, _, o in gs for x in g.nodes_of(o)]
-    rets = [n for n in g.nodes if n.kind == 'stmt' and isinstance(n.stmt, ast.Return)]
-    ok = gate is not None and all(any(t in dom[r.id] for t in gate) for r in rets)
-    ctx.ob('C15-R4', lw, 'out-of-range distance refused before indexing', ok,
-           '`if distance not in self: raise` dominates the lookup' if ok else
-           'an out-of-range distance reaches the bisect lookup')
-    loc_ = m.func('GroundTrack.location')
-    gl = CFG(loc_.node)
-    doml = gl.dominators(edge_ok=lambda a, b, lab: lab != 'e')
-    chk = [n for n in gl.nodes if n.stmt is not None and n.kind == 'stmt' and
-           any(call_name(c) == 'self.lookup_waypoint' and c.args and norm(c.args[0]) == loc_.params[1] for c in calls_in(n.stmt))]
-    retsl = [n for n in gl.nodes if n.kind == 'stmt' and isinstance(n.stmt, ast.Return)]
-    ok = bool(chk) and all(chk[0].id in doml[r.id] for r in retsl)
-    early = [r for r in retsl if not chk or chk[0].id not in doml[r.id]]
-    ctx.ob('C15-R4', loc_, 'location() range-checks the distance before producing any point', ok,
-           'the refusing lookup dominates every return' if ok else
-           (f'`{early[0].text()[:60]}` (line {early[0].line}) returns a point before the range check: an out-of-range '
-            'distance is silently clamped to an end waypoint instead of being refused'),
-           line=(early[0].line if early else loc_.node.lineno))
-    # R7 queries are pure: a location depends on the distance asked for, not on earlier queries
     gtc = m.cls('GroundTrack')
+    # R7 queries are pure: a location depends on the distance asked for, not on earlier queries
     nq = 0
     for meth in gtc.methods.values():
         if meth.name in ('__init__', '__post_init__'):
@@ -266,18 +181,49 @@ def rule_track(ctx):
                 'non-monotonic query sequence)'), line=(writes[0].lineno if writes else meth.node.lineno),
                nontrivial=bool(writes))
     ctx.floor('C15-R7', nq, 6, 'GroundTrack query methods')
-    rule_slots(ctx)
-    cont = m.func('GroundTrack.__contains__')
-    r = [n for n in walk_no_nested(cont.node) if isinstance(n, ast.Return)]
-    ok = len(r) == 1 and norm(r[0].value) in (
-        'distance >= self.index[0] and distance <= self.index[-1]',
-        'self.index[0] <= distance <= self.index[-1]')
-    ctx.ob('C15-R4', cont, 'range is [first, last] cumulative distance', ok,
-           norm(r[0].value) if ok else 'range test of the track changed', nontrivial=False)
+    # R2 (second half): what the constructor of a point made of the azimuth is not undone afterwards
+    point_classes = [c for c in m.classes.values() if 'azimuth' in c.all_fields()]
+    for fi in m.functions.values():
+        if fi.cls is not None and any(fi.cls is c for c in point_classes):
+            continue
+        for t, st, how in stores_to(fi.node):
+            if isinstance(t, ast.Attribute) and t.attr == 'azimuth' and how != 'del':
+                ctx.ob('C15-R2', fi, norm(st), False, 'azimuth of a point overwritten outside its constructor',
+                       line=st.lineno)
+    # the remaining parts are independent of each other: what one of them cannot decide does not keep the others from
+    # reporting what they establish
+    covered: set = set()
+    first_error = None
+    for part in (rule_slots, lambda c: rule_queries(c, covered), rule_mission, rule_private, lambda c: rule_legs(c, covered)):
+        try:
+            part(ctx)
+        except AnalysisError as ex:
+            first_error = first_error or ex
+    if first_error is not None:
+        if any(not o.ok and o.rule == 'C15-R5' for o in ctx.obligations):
+            # a leg incoherence has been established: that verdict does not depend on what else could not be decided
+            # (C02 re-uses exactly these obligations)
+            ctx.note(f'C15: rules not completed: {first_error}')
+            return
+        raise first_error
 
-    legs_of = rule_legs(ctx)
 
-    rule_components(ctx, legs_of)
+def rule_private(ctx):
+    """R4 (second half): the guard of the overstep sits in the public query; the helpers that evaluate geodesics for it
+    are not an entry of their own, so nothing outside the class may call them."""
+    prog = ctx.prog
+    m = prog.module(GT)
+    gtc = m.cls('GroundTrack')
+    for meth in gtc.methods.values():
+        if not meth.name.startswith('_') or meth.name.startswith('__'):
+            continue
+        if not any(k == 'fwd' for f, c, k in geod_calls(prog, closure(prog, [meth]))):
+            continue
+        outside = [c for c, _ in callers_of(prog, meth) if c.cls is None or not c.cls.is_subclass_of(gtc.name)]
+        ctx.ob('C15-R4', meth, 'called only from the ground track itself', not outside,
+               'its guards are those of the public queries that reach it' if not outside else
+               f'called from {[c.qualname for c in outside]}: the forward geodesic is evaluated without the range / '
+               'overstep guards of step()', nontrivial=False)
 
 
 # ----------------------------------------------------------------- R5 -----
@@ -373,7 +319,7 @@ def _leg_of_slot(slot: int, e: ast.AST):
 SLOT_NAMES = ('start lon', 'start lat', 'azimuth', 'distance origin')
 
 
-def rule_legs(ctx):
+def rule_legs(ctx, covered=frozenset()):
     """R5.  Every forward-geodesic evaluation of the ground track - written in a GroundTrack method or reached from
     one through helpers that forward their parameters - is judged with the arguments as they are at the outermost
     call site: start waypoint, leg azimuth and the cumulative distance subtracted must belong to one leg."""
@@ -441,8 +387,12 @@ def rule_legs(ctx):
                'the forward geodesic starts at one waypoint but uses the azimuth / distance origin of another '
                'leg: points leave the great circle', line=site.lineno)
 
+    n_cov = 0
     for fi, c, kind in geod_calls(prog, reach):
         if kind != 'fwd':
+            continue
+        if id(c) in covered:        # judged in context, on values (rule_queries)
+            n_cov += 1
             continue
         slots = fwd_slots(c)
         if slots is None:
@@ -457,226 +407,1251 @@ def rule_legs(ctx):
                    for i, s in enumerate(slots)):
                 continue
         judge(fi, slots, c, [], 0)
-    ctx.floor('C15-R5', len(judged), 2, 'forward geodesic evaluations of the ground track')
+    ctx.floor('C15-R5', len(judged) + n_cov, 1, 'forward geodesic evaluations of the ground track')
     return legs_of
 
 
-# ----------------------------------------------------------------- R6 -----
-_CONVERSIONS = {'list', 'tuple', 'np.asarray', 'np.array', 'numpy.asarray', 'numpy.array', 'float'}
+# =============================================================================================================
+# R2-R6 on values: the public queries of the ground track, evaluated in a free model of the geodesic
+# =============================================================================================================
+# The methods are executed symbolically by the engine of c06 (every branch a path condition, resolved helpers /
+# properties / static methods inlined, locals replaced by what they were bound to), so that a returned point reads in
+# terms of the method's parameters and the attributes of `self`, whichever helper or temporary it went through.  The
+# path conditions and values are then evaluated on sample tracks in a *free model*: `GEOD.fwd` / `GEOD.inv` are
+# uninterpreted functions (a deterministic draw per distinct argument tuple, with the symmetries of the real ones:
+# inv(A, B)[1] = inv(B, A)[0], inv(A, B)[2] = inv(B, A)[2], fwd(.., az, ..) = fwd(.., az % 360, ..)), way-points are
+# objects with distinct coordinates, everything else is ordinary arithmetic on the sample numbers.  Two results are
+# equal in that model exactly when they are the same geodesic computation on the same arguments, so "what the code
+# returns" can be compared with the reference formula of the property whatever the code is spelled like.  Nothing of
+# the repository is imported or run: extracted expressions are evaluated over the model (as C06 does for its path
+# conditions).  What the model cannot evaluate is UNDECIDED, never a violation; a difference from the reference is a
+# violation only when it is recognised as a specific mistake (wrong leg, wrong origin, missing normalisation ...).
 
 
-def _strip_conv(e: ast.AST) -> ast.AST:
-    while isinstance(e, ast.Call) and call_name(e) in _CONVERSIONS and len(e.args) == 1 and not e.keywords:
-        e = e.args[0]
-    return e
+class _Unk(Exception):
+    """the model cannot evaluate a construct"""
 
 
-def _component(fi, e: ast.AST, depth: int = 0):
-    """(call, i) when e denotes element i of the tuple a call returns: `call(...)[i]`, a local bound by unpacking
-    the call, a local bound to either, or `t[i]` with t a local bound to the call"""
-    e = _strip_conv(e)
-    if depth > 4:
+class _Raised(Exception):
+    """the evaluated function leaves by raise"""
+
+    def __init__(self, what=''):
+        super().__init__(what)
+        self.what = what
+
+
+class _Obj:
+    """an instance of a repository class in the model: its class and its attribute values"""
+    __slots__ = ('k', 'f')
+
+    def __init__(self, k, f):
+        self.k, self.f = k, f
+
+    def __eq__(self, o):
+        return isinstance(o, _Obj) and o.k is self.k and o.f == self.f
+
+    def __hash__(self):
+        return id(self)
+
+    def __repr__(self):
+        return f'{self.k.name if self.k is not None else "?"}({", ".join(f"{a}={v!r}" for a, v in self.f.items())})'
+
+
+def _draw(*xs) -> float:
+    """a deterministic generic number in [0, 1) per argument tuple (arguments rounded: float noise does not matter)"""
+    s = 0.0
+    for i, x in enumerate(xs):
+        s += (i + 1.6180339887) * round(float(x), 6) * 0.7548776662
+    h = math.sin(s * 12.9898 + 78.233) * 43758.5453
+    return h - math.floor(h)
+
+
+def _grid(x: float, step: float) -> float:
+    return round(x / step) * step
+
+
+def _inv1(lon1, lat1, lon2, lat2):
+    a, b = (lon1, lat1), (lon2, lat2)
+
+    def az(p, q):
+        return _grid(_draw(1, *p, *q) * 359.0 - 179.5, 0.25)        # the raw convention (-180, 180]
+    lo, hi = sorted([a, b])
+    return az(a, b), az(b, a), (400.0 + _grid(_draw(2, *lo, *hi) * 1600.0, 8.0) if a != b else 0.0)
+
+
+def _fwd1(lon, lat, az, dist):
+    az = az % 360.0
+    return (_grid(_draw(3, lon, lat, az, dist) * 340.0 - 170.0, 0.125), _grid(_draw(4, lon, lat, az, dist) * 160.0 - 80.0, 0.125),
+            _grid(_draw(5, lon, lat, az, dist) * 359.0 - 179.5, 0.25))
+
+
+def _vectorised(f, args):
+    if not all(isinstance(a, (int, float, list, tuple)) and not isinstance(a, bool) for a in args):
+        raise _Unk('geodesic argument is not a number')
+    if any(isinstance(a, (list, tuple)) for a in args):
+        n = {len(a) for a in args if isinstance(a, (list, tuple))}
+        if len(n) != 1:
+            raise _Raised('geodesic arrays of different length')
+        n = n.pop()
+        cols = [list(a) if isinstance(a, (list, tuple)) else [a] * n for a in args]
+        if not all(isinstance(x, (int, float)) and not isinstance(x, bool) for c in cols for x in c):
+            raise _Unk('geodesic argument is not a number')
+        rows = [f(*[c[i] for c in cols]) for i in range(n)]
+        return tuple([r[j] for r in rows] for j in range(3))
+    return f(*args)
+
+
+def _lib_accumulate(it, func=None, *, initial=None):
+    if func is not None:
+        raise _Unk('accumulate with a function')
+    return list(_it.accumulate(it, initial=initial))
+
+
+def _lib_searchsorted(a, v, side='left', sorter=None):
+    if sorter is not None:
+        raise _Unk('searchsorted with sorter')
+    return (_bisect.bisect_left if side == 'left' else _bisect.bisect_right)(list(a), v)
+
+
+def _lib_concatenate(seqs, *more):
+    out = []
+    for s in seqs:
+        out += list(s) if isinstance(s, (list, tuple)) else [s]
+    return out
+
+
+def _lib_array(x, *a, **k):
+    return list(x) if isinstance(x, (list, tuple)) else x
+
+
+def _lib_insert(a, i, v):
+    out = list(a)
+    if not isinstance(i, int):
+        raise _Unk('insert position')
+    out[i:i] = list(v) if isinstance(v, (list, tuple)) else [v]
+    return out
+
+
+_LIB = {
+    'len': len, 'list': list, 'tuple': tuple, 'float': float, 'int': int, 'abs': abs, 'min': min, 'max': max, 'sum': sum,
+    'fsum': math.fsum, 'sorted': sorted, 'range': lambda *a: list(range(*a)), 'bool': bool, 'round': round,
+    'any': any, 'all': all, 'enumerate': lambda x, start=0: [(i, v) for i, v in enumerate(x, start)],
+    'zip': lambda *a, **k: [tuple(r) for r in zip(*a)], 'reversed': lambda x: list(reversed(x)),
+    'pairwise': lambda x: [tuple(r) for r in _it.pairwise(x)],
+    'groupby': lambda x: [(k_, list(g)) for k_, g in _it.groupby(x)],
+    'asarray': _lib_array, 'array': _lib_array, 'asanyarray': _lib_array, 'float64': float, 'tolist': list,
+    'accumulate': _lib_accumulate, 'cumsum': lambda a: list(_it.accumulate(a)),
+    'concatenate': _lib_concatenate, 'hstack': _lib_concatenate, 'insert': _lib_insert,
+    'diff': lambda a: [y - x for x, y in _it.pairwise(a)],
+    'bisect_left': _bisect.bisect_left, 'bisect_right': _bisect.bisect_right, 'bisect': _bisect.bisect,
+    'searchsorted': _lib_searchsorted,
+    'fmod': math.fmod, 'mod': lambda a, b: a % b, 'remainder': lambda a, b: a % b, 'floor': math.floor, 'ceil': math.ceil,
+    'isclose': math.isclose, 'fabs': math.fabs, 'isnan': math.isnan, 'isfinite': math.isfinite, 'isinf': math.isinf,
+    'copysign': math.copysign,
+}
+_LIB_CONST = {'math.pi': math.pi, 'np.pi': math.pi, 'numpy.pi': math.pi, 'math.inf': math.inf, 'np.inf': math.inf,
+              'numpy.inf': math.inf, 'math.nan': math.nan, 'np.nan': math.nan, 'numpy.nan': math.nan, 'math.tau': math.tau}
+_BIN = {ast.Add: operator.add, ast.Sub: operator.sub, ast.Mult: operator.mul, ast.Div: operator.truediv,
+        ast.FloorDiv: operator.floordiv, ast.Mod: operator.mod, ast.Pow: operator.pow}
+_CMP = {ast.Eq: operator.eq, ast.NotEq: operator.ne, ast.Lt: operator.lt, ast.LtE: operator.le, ast.Gt: operator.gt,
+        ast.GtE: operator.ge, ast.Is: operator.is_, ast.IsNot: operator.is_not}
+_PLAIN = (int, float, str, list, tuple, type(None))
+
+
+def _method(k, name):
+    """method `name` of class k through its MRO (the loader keeps the methods of a nested class under the module's
+    function table only)"""
+    if k is None:
         return None
-    if isinstance(e, ast.Subscript) and isinstance(e.slice, ast.Constant) and isinstance(e.slice.value, int):
-        v = e.value
-        if isinstance(v, ast.Name):
-            v = single_def_value(fi.node, v.id) or v
-        if isinstance(v, ast.Call):
-            return v, e.slice.value
-        return None
-    if isinstance(e, ast.Name):
-        td = tuple_def_component(fi.node, e.id)
-        if td is not None and isinstance(td[0], ast.Call):
-            return td
-        d = single_def_value(fi.node, e.id)
-        if d is not None:
-            return _component(fi, d, depth + 1)
+    for c in k.mro():
+        if name in c.methods:
+            return c.methods[name]
+        for key, c2 in c.module.classes.items():
+            if c2 is c and f'{key}.{name}' in c.module.functions:
+                return c.module.functions[f'{key}.{name}']
     return None
 
 
-def _zero_list(e: ast.AST) -> bool:
-    return isinstance(e, (ast.List, ast.Tuple)) and len(e.elts) == 1 and isinstance(e.elts[0], ast.Constant) \
-        and not isinstance(e.elts[0].value, bool) and e.elts[0].value == 0
+def _is_geod(e: ast.AST) -> bool:
+    """the receiver of a .fwd / .inv call is a geodesic object (names have been resolved by the engine)"""
+    if isinstance(e, ast.Call):
+        return call_name(e).split('.')[-1] == 'Geod'
+    t = e.attr if isinstance(e, ast.Attribute) else e.id if isinstance(e, ast.Name) else ''
+    return 'geod' in t.lower()
 
 
-def _running_sum_from_zero(e: ast.AST):
-    """D when e evaluates to [0, D0, D0+D1, ...]: accumulate([0] + D), accumulate(D, initial=0),
-    [0] + list(accumulate(D)), np.cumsum([0] + D), np.concatenate(([0], np.cumsum(D)))"""
-    e = _strip_conv(e)
-
-    def plain_sum(c):
-        """D when c is accumulate(D) / np.cumsum(D) with the default (addition) and no start value"""
-        c = _strip_conv(c)
-        if isinstance(c, ast.Call) and call_name(c).split('.')[-1] in ('accumulate', 'cumsum') and len(c.args) == 1 \
-                and not c.keywords:
-            return c.args[0]
-        return None
-    if isinstance(e, ast.Call) and call_name(e).split('.')[-1] in ('accumulate', 'cumsum') and len(e.args) == 1:
-        kws = {k.arg: k.value for k in e.keywords}
-        a = e.args[0]
-        if not kws and isinstance(a, ast.BinOp) and isinstance(a.op, ast.Add) and _zero_list(a.left):
-            return _strip_conv(a.right)
-        if set(kws) == {'initial'} and call_name(e).split('.')[-1] == 'accumulate' \
-                and isinstance(kws['initial'], ast.Constant) and not isinstance(kws['initial'].value, bool) \
-                and kws['initial'].value == 0:
-            return _strip_conv(a)
-        return None
-    if isinstance(e, ast.BinOp) and isinstance(e.op, ast.Add) and _zero_list(e.left):
-        return plain_sum(e.right)
-    if isinstance(e, ast.Call) and call_name(e).split('.')[-1] == 'concatenate' and len(e.args) == 1 \
-            and isinstance(e.args[0], (ast.Tuple, ast.List)) and len(e.args[0].elts) == 2 and _zero_list(e.args[0].elts[0]):
-        return plain_sum(e.args[0].elts[1])
+def _int_const(e):
+    """value of an integer constant expression (literals, unary minus, + - * //), else None"""
+    if isinstance(e, ast.Constant) and isinstance(e.value, int) and not isinstance(e.value, bool):
+        return e.value
+    if isinstance(e, ast.UnaryOp) and isinstance(e.op, ast.USub):
+        v = _int_const(e.operand)
+        return -v if v is not None else None
+    if isinstance(e, ast.BinOp) and type(e.op) in (ast.Add, ast.Sub, ast.Mult, ast.FloorDiv):
+        a, b = _int_const(e.left), _int_const(e.right)
+        if a is None or b is None or (isinstance(e.op, ast.FloorDiv) and b == 0):
+            return None
+        return _BIN[type(e.op)](a, b)
     return None
 
 
-def _slice_kind(e: ast.AST):
-    """('head' | 'tail', base text) for seq[:-1] / seq[1:]"""
-    if not (isinstance(e, ast.Subscript) and isinstance(e.slice, ast.Slice)) or e.slice.step is not None:
+_ENGINE = None
+
+
+def _engine_class():
+    """the symbolic engine of C06, taught three things about sequences of known length (so that a loop over the
+    way-points of a sample track, or over the legs computed from them, is unrolled like a loop over a literal table):
+    a slice of a display is a display; pyproj's geodesic calls work element by element on sequences; range() of
+    constants and pairwise() of a display are displays"""
+    global _ENGINE
+    if _ENGINE is not None:
+        return _ENGINE
+    from .c06 import Engine
+
+    class Eng(Engine):
+        def _subscript(self, v, sl, st):
+            if isinstance(sl, ast.Slice) and isinstance(v, (ast.List, ast.Tuple)) and \
+                    not any(isinstance(x, ast.Starred) for x in v.elts):
+                parts = [None if x is None else _int_const(x) for x in (sl.lower, sl.upper, sl.step)]
+                if all(p is not None or x is None for p, x in zip(parts, (sl.lower, sl.upper, sl.step))) and parts[2] != 0:
+                    return [(type(v)(elts=list(v.elts[slice(*parts)]), ctx=ast.Load()), st)]
+            return super()._subscript(v, sl, st)
+
+        def _call1(self, c, recv, pos, kw, st, fr, raises):
+            f = c.func
+            if isinstance(f, ast.Attribute) and f.attr in GEOD_SIG and recv is not None and _is_geod(recv) and not kw \
+                    and len(pos) == 4 and all(isinstance(a, (ast.List, ast.Tuple)) for a in pos):
+                ns = {len(a.elts) for a in pos}
+                if len(ns) == 1 and not any(isinstance(x, ast.Starred) for a in pos if isinstance(a, (ast.List, ast.Tuple))
+                                            for x in a.elts):
+                    n = ns.pop()
+                    rows = [ast.Call(func=ast.Attribute(value=recv, attr=f.attr, ctx=ast.Load()),
+                                     args=[(a.elts[i] if isinstance(a, (ast.List, ast.Tuple)) else a) for a in pos], keywords=[])
+                            for i in range(n)]
+                    val = ast.Tuple(elts=[ast.List(elts=[ast.Subscript(value=r, slice=ast.Constant(value=j), ctx=ast.Load())
+                                                         for r in rows], ctx=ast.Load()) for j in range(3)], ctx=ast.Load())
+                    return [(val, st)]
+            if isinstance(f, ast.Name) and f.id == 'range' and f.id not in st.env and not kw and 1 <= len(pos) <= 3:
+                vals = [_int_const(a) for a in pos]
+                if all(v is not None for v in vals) and (len(vals) < 3 or vals[2] != 0) and len(range(*vals)) <= 24:
+                    return [(ast.List(elts=[ast.Constant(value=i) for i in range(*vals)], ctx=ast.Load()), st)]
+            if (dotted_name(f) or '').split('.')[-1] == 'pairwise' and not kw and len(pos) == 1 \
+                    and isinstance(pos[0], (ast.List, ast.Tuple)) and not any(isinstance(x, ast.Starred) for x in pos[0].elts):
+                e = pos[0].elts
+                return [(ast.List(elts=[ast.Tuple(elts=[a, b], ctx=ast.Load()) for a, b in zip(e, e[1:])], ctx=ast.Load()), st)]
+            return super()._call1(c, recv, pos, kw, st, fr, raises)
+
+        def _mutation(self, src, val, st):
+            # `obj.field.append(x)` / `.extend([..])` on a field that holds a display on this path (outside summarised
+            # loops): the field then holds the longer display
+            if isinstance(src, ast.Call) and isinstance(src.func, ast.Attribute) and src.func.attr in ('append', 'extend') \
+                    and isinstance(src.func.value, ast.Attribute) and isinstance(src.func.value.value, ast.Name) \
+                    and isinstance(val, ast.Call) and len(val.args) == 1 and not val.keywords and not st.loops:
+                base = st.env.get(src.func.value.value.id)
+                if isinstance(base, ast.expr):
+                    key = canon(ast.Attribute(value=base, attr=src.func.value.attr, ctx=ast.Load()))
+                    cur = st.heap.get(key)
+                    if isinstance(cur, ast.List):
+                        if src.func.attr == 'append':
+                            return st.store(key, ast.List(elts=list(cur.elts) + [val.args[0]], ctx=ast.Load()))
+                        if isinstance(val.args[0], (ast.List, ast.Tuple)):
+                            return st.store(key, ast.List(elts=list(cur.elts) + list(val.args[0].elts), ctx=ast.Load()))
+            return super()._mutation(src, val, st)
+
+        def run_seeded(self, fi, self_cls, args, heap):
+            """Engine.run with object fields known on entry (`heap`: canonical text of the field -> value)"""
+            from .c06 import Fr, St, _const, _name
+            e = {p_: _name(p_) for p_ in fi.params}
+            e.update(args)
+            sv = e[fi.params[0]] if fi.params and fi.params[0] in ('self', 'cls') else None
+            fr = Fr(fi, self_cls or fi.cls, sv, (fi.qualname,))
+            outs = self.block(fi.node.body, St(env=e, heap=dict(heap)), fr)
+            return [(('return' if k == 'fall' else k), (v if k != 'fall' else _const(None)), s_) for k, v, s_ in outs]
+
+    _ENGINE = Eng
+    return Eng
+
+
+class _World:
+    """evaluation of repository functions over model values"""
+
+    def __init__(self, prog, inline=None):
+        self.prog = prog
+        self.eng = _engine_class()(prog, inline=inline)
+        self._outs: dict = {}
+        self._ctor_index: dict = {}
+        self._ctor_seen = 0
+        self.log: list = []             # geodesic evaluations of the query under way: (kind, [args], event | None)
+        self.node_event: dict = {}
+        self.quiet = 0
+        self.stack: list = []
+
+    # ------------------------------------------------------------ functions
+    def outcomes(self, fi, cls, lists, seqs=()):
+        """paths through fi; the sequence-valued parameters (`lists`) and sequence-valued attributes of self (`seqs`) are
+        presented to the engine as displays of their (symbolic) elements, so that loops over them unroll"""
+        key = (fi.file, fi.qualname, cls.name if cls is not None else None, lists, seqs)
+        if key not in self._outs:
+            def display(stem, n):
+                return ast.List(elts=[ast.Name(id=f'{stem}__{i}', ctx=ast.Load()) for i in range(n)], ctx=ast.Load())
+            args = {p: display(p, n) for p, n in lists}
+            heap = {f'{fi.params[0]}.{a}': display(f'{fi.params[0]}__{a}', n) for a, n in seqs}
+            try:
+                self._outs[key] = self.eng.run_seeded(fi, cls, args, heap)
+            except RecursionError:
+                raise _Unk(f'{fi.qualname}: recursion too deep') from None
+            except Exception as ex:         # Undecided of the engine, or a form it does not know
+                raise _Unk(f'{fi.qualname}: {type(ex).__name__}: {ex}') from None
+            # a loop the engine could not unroll is summarised by alternatives without a condition (no iteration / some
+            # iterations): which one is taken on the sample track cannot be told from path conditions
+            if any(isinstance(c, ast.Call) and isinstance(c.func, ast.Name) and c.func.id == '_in_loop'
+                   for o in self._outs[key] for c, _ in o[2].pc):
+                self._outs[key] = None
+        if self._outs[key] is None:
+            raise _Unk(f'{fi.qualname}: a loop over something that is not a sequence of known length on the sample track')
+        return self._outs[key]
+
+    def invoke(self, fi, cls, self_obj, pos, kw=None):
+        """value returned by fi on model arguments (stores to model objects applied); _Raised when it leaves by raise"""
+        if len(self.stack) > 12:
+            raise _Unk('model evaluation nests too deep')
+        self.stack.append(fi)
+        try:
+            return self._invoke(fi, cls, self_obj, list(pos), dict(kw or {}))
+        finally:
+            self.stack.pop()
+
+    def _invoke(self, fi, cls, self_obj, pos, kw):
+        a = fi.node.args
+        if a.vararg or a.kwarg:
+            raise _Unk(f'{fi.qualname}: variadic signature')
+        names = [x.arg for x in a.posonlyargs + a.args]
+        env = {}
+        decs = [d.split('.')[-1].split('(')[0] for d in fi.decorators()]
+        if names and fi.cls is not None and 'staticmethod' not in decs and '<locals>' not in fi.qualname:
+            env[names[0]] = self_obj
+            names = names[1:]
+        if len(pos) > len(names):
+            raise _Unk(f'{fi.qualname}: too many arguments')
+        env.update(zip(names, pos))
+        allowed = set(names) | {x.arg for x in a.kwonlyargs}
+        for k_, v in kw.items():
+            if k_ in env or k_ not in allowed:
+                raise _Unk(f'{fi.qualname}: unexpected argument {k_}')
+            env[k_] = v
+        allpos = [x.arg for x in a.posonlyargs + a.args]
+        for nme, d in list(zip(allpos[len(allpos) - len(a.defaults):], a.defaults)) + \
+                [(x.arg, d) for x, d in zip(a.kwonlyargs, a.kw_defaults) if d is not None]:
+            if nme not in env:
+                env[nme] = self.ev(d, {})
+        if any(n_ not in env for n_ in allowed):
+            raise _Unk(f'{fi.qualname}: missing argument')
+        lists = tuple(sorted((p, len(v)) for p, v in env.items()
+                             if isinstance(v, list) and v and all(isinstance(x, _Obj) for x in v)))
+        for p, n in lists:
+            for i in range(n):
+                env[f'{p}__{i}'] = env[p][i]
+        seqs = ()
+        if isinstance(self_obj, _Obj) and fi.params and env.get(fi.params[0]) is self_obj:
+            seqs = tuple(sorted((a, len(v)) for a, v in self_obj.f.items() if isinstance(v, list) and 0 < len(v) <= 24
+                                and all(isinstance(x, (int, float, _Obj)) and not isinstance(x, bool) for x in v)))
+            for a, n in seqs:
+                for i in range(n):
+                    env[f'{fi.params[0]}__{a}__{i}'] = self_obj.f[a][i]
+        kind, v, st = self.select(self.outcomes(fi, cls, lists, seqs), env, fi)
+        # a container changed in place is followed by the engine only when it is a local display; a field of an object
+        # changed in place (or through a local alias of it) is not
+        for e in st.events:
+            if e.kind == 'call' and isinstance(getattr(e.node, 'func', None), ast.Attribute) and e.node.func.attr in MUTATING_METHODS:
+                r = e.node.func.value
+                grown_field = e.node.func.attr in ('append', 'extend') and isinstance(r, ast.Attribute) \
+                    and isinstance(r.value, ast.Name) and isinstance(e.target, ast.List) \
+                    and isinstance(st.heap.get(canon(r)), ast.List)
+                if not grown_field and (not isinstance(r, ast.Name) or any(hv is e.target for hv in st.heap.values())):
+                    raise _Unk(f'{fi.qualname}: `{canon(e.node)[:50]}` changes an object in place')
+        saved = self.node_event
+        self.node_event = dict(saved)
+        self.node_event.update({id(e.value): e for e in st.events if e.kind == 'call' and e.value is not None})
+        try:
+            if kind == 'raise':
+                raise _Raised(canon(v)[:80])
+            val = self.ev(v, env)
+            effects = []
+            for e in st.events:
+                if e.kind == 'store':
+                    effects.append((e.target, self.ev(e.value, env)))
+                elif e.kind == 'call' and isinstance(e.value, ast.Call) and len(e.args) == 3 and not e.kwargs and \
+                        canon(e.value.func) in ('object.__setattr__', 'setattr') and isinstance(e.args[1], ast.Constant) \
+                        and isinstance(e.args[1].value, str):
+                    effects.append((ast.Attribute(value=e.args[0], attr=e.args[1].value, ctx=ast.Load()),
+                                    self.ev(e.args[2], env)))
+            # a field that was grown in place holds, at the end of the path, the display the engine kept for it
+            for key, hv in st.heap.items():
+                if isinstance(hv, ast.List) and re.fullmatch(r'\w+\.\w+', key) and key.split('.')[0] in env:
+                    nme, attr = key.split('.')
+                    effects.append((ast.Attribute(value=ast.Name(id=nme, ctx=ast.Load()), attr=attr, ctx=ast.Load()),
+                                    self.ev(hv, env)))
+            for tgt, x in effects:
+                self.assign(tgt, x, env)
+            return val
+        finally:
+            self.node_event = saved
+
+    def select(self, outs, env, fi):
+        """the one path whose condition holds on the model values"""
+        sure, maybe = [], []
+        self.quiet += 1
+        try:
+            for o in outs:
+                verdict = True
+                for cond, pol in o[2].pc:
+                    try:
+                        if bool(self.ev(cond, env)) != pol:
+                            verdict = False
+                            break
+                    except (_Unk, _Raised):
+                        verdict = None
+                if verdict is True:
+                    sure.append(o)
+                elif verdict is None:
+                    maybe.append(o)
+        finally:
+            self.quiet -= 1
+        if len(sure) == 1:
+            return sure[0]
+        if not sure and len(maybe) == 1:
+            return maybe[0]
+        raise _Unk(f'cannot tell which path through {fi.qualname} is taken '
+                   f'({len(sure)} hold, {len(maybe)} cannot be evaluated)')
+
+    def assign(self, tgt, x, env):
+        if isinstance(tgt, ast.Attribute):
+            o = self.ev(tgt.value, env)
+            if isinstance(o, _Obj):
+                o.f[tgt.attr] = x
+                return
+        elif isinstance(tgt, ast.Subscript):
+            o, i = self.ev(tgt.value, env), self.ev(tgt.slice, env)
+            if isinstance(o, (list, dict)):
+                try:
+                    o[i] = x
+                except (IndexError, KeyError, TypeError):
+                    raise _Raised('store out of range') from None
+                return
+        raise _Unk(f'store to {canon(tgt)[:50]}')
+
+    # ------------------------------------------------------------ objects
+    def ctor_class(self, n: ast.Call):
+        if not isinstance(n.func, ast.Name):
+            return None
+        cs = self.eng.ctors
+        if len(cs) != self._ctor_seen:
+            for k, ev in cs[self._ctor_seen:]:
+                self._ctor_index[id(ev.value)] = k
+                self._ctor_index.setdefault(('name', k.name), set()).add(id(k))
+                self._ctor_index[('cls', id(k))] = k
+            self._ctor_seen = len(cs)
+        k = self._ctor_index.get(id(n))
+        if k is not None:
+            return k
+        named = self._ctor_index.get(('name', n.func.id), set())
+        if len(named) == 1:
+            return self._ctor_index[('cls', next(iter(named)))]
         return None
-    lo, hi = e.slice.lower, e.slice.upper
 
-    def const(x, v):
-        return isinstance(x, ast.Constant) and x.value == v and not isinstance(x.value, bool) or \
-            (v < 0 and isinstance(x, ast.UnaryOp) and isinstance(x.op, ast.USub) and isinstance(x.operand, ast.Constant)
-             and x.operand.value == -v)
-    if (lo is None or const(lo, 0)) and hi is not None and const(hi, -1):
-        return 'head', norm(e.value)
-    if lo is not None and const(lo, 1) and (hi is None or (isinstance(hi, ast.Constant) and hi.value is None)):
-        return 'tail', norm(e.value)
-    return None
+    def construct(self, k, pos, kw=None):
+        kw = dict(kw or {})
+        obj = _Obj(k, {})
+        init = _method(k, '__init__')
+        if init is not None:
+            self.invoke(init, k, obj, pos, kw)
+            return obj
+        decs = [ast.unparse(d).split('(')[0].split('.')[-1] for c in k.mro() for d in c.node.decorator_list]
+        bases = [b.split('.')[-1] for c in k.mro() for b in c.base_exprs]
+        if _method(k, '__new__') is not None or not ('dataclass' in decs or 'NamedTuple' in bases or 'define' in decs):
+            raise _Unk(f'constructor of {k.name}')
+        fields = [f for f, ann in k.all_fields().items() if 'ClassVar' not in ast.unparse(ann)]
+        if len(pos) > len(fields):
+            raise _Unk(f'constructor of {k.name}: too many arguments')
+        obj.f.update(zip(fields, pos))
+        for f, v in kw.items():
+            if f in obj.f or f not in fields:
+                raise _Unk(f'constructor of {k.name}: argument {f}')
+            obj.f[f] = v
+        dflt = {}
+        for c in reversed(k.mro()):
+            dflt.update({f: d for f, d in c.class_assignments().items() if d is not None})
+        for f in fields:
+            if f not in obj.f:
+                if f not in dflt:
+                    raise _Unk(f'constructor of {k.name}: field {f} not given')
+                obj.f[f] = self.ev(dflt[f], {})
+        obj.f = {f: obj.f[f] for f in fields}
+        pi = _method(k, '__post_init__')
+        if pi is not None:
+            self.invoke(pi, k, obj, [])
+        return obj
+
+    def method(self, obj: _Obj, name: str, pos, kw=None):
+        m = _method(obj.k, name)
+        if m is None:
+            raise _Unk(f'{name} of {obj.k.name if obj.k is not None else "?"}')
+        return self.invoke(m, obj.k, obj, pos, kw)
+
+    # ------------------------------------------------------------ expressions
+    def ev(self, n, env):
+        if isinstance(n, ast.Constant):
+            return n.value
+        if isinstance(n, ast.Name):
+            if n.id in env:
+                return env[n.id]
+            raise _Unk(f'name {n.id}')
+        if isinstance(n, ast.Attribute):
+            d = dotted_name(n)
+            if d in _LIB_CONST:
+                return _LIB_CONST[d]
+            v = self.ev(n.value, env)
+            if isinstance(v, _Obj):
+                if n.attr in v.f:
+                    return v.f[n.attr]
+                m = _method(v.k, n.attr)
+                if m is not None and any(x.split('.')[-1] in ('property', 'cached_property') for x in m.decorators()):
+                    return self.invoke(m, v.k, v, [])
+            raise _Unk(f'attribute {canon(n)[:50]}')
+        if isinstance(n, ast.Subscript):
+            v = self.ev(n.value, env)
+            if isinstance(v, _Obj) and _method(v.k, '__getitem__') is None and v.k is not None and \
+                    any(b.split('.')[-1] == 'NamedTuple' for c in v.k.mro() for b in c.base_exprs):
+                v = tuple(v.f.values())
+            if isinstance(v, _Obj):
+                return self.method(v, '__getitem__', [self.ev(n.slice, env)])
+            if not isinstance(v, (list, tuple, str, dict)):
+                raise _Unk(f'subscript of {canon(n.value)[:40]}')
+            if isinstance(n.slice, ast.Slice):
+                parts = [self.ev(x, env) if x is not None else None for x in (n.slice.lower, n.slice.upper, n.slice.step)]
+                if not all(p is None or (isinstance(p, int) and not isinstance(p, bool)) for p in parts) or isinstance(v, dict):
+                    raise _Unk('slice bounds')
+                return v[slice(*parts)]
+            i = self.ev(n.slice, env)
+            if isinstance(v, dict):
+                if i in v:
+                    return v[i]
+                raise _Raised('KeyError')
+            if not isinstance(i, int) or isinstance(i, bool):
+                raise _Unk(f'index {canon(n.slice)[:40]}')
+            try:
+                return v[i]
+            except IndexError:
+                raise _Raised('IndexError') from None
+        if isinstance(n, ast.Call):
+            return self.call(n, env)
+        if isinstance(n, ast.BoolOp):
+            r = None
+            for x in n.values:
+                r = self.ev(x, env)
+                if bool(r) != isinstance(n.op, ast.And):
+                    return r
+            return r
+        if isinstance(n, ast.UnaryOp):
+            v = self.ev(n.operand, env)
+            if isinstance(n.op, ast.Not):
+                return not v
+            if isinstance(v, (int, float)):
+                return -v if isinstance(n.op, ast.USub) else +v if isinstance(n.op, ast.UAdd) else ~v
+            raise _Unk('unary operator')
+        if isinstance(n, ast.BinOp):
+            a, b = self.ev(n.left, env), self.ev(n.right, env)
+            if type(n.op) not in _BIN or not isinstance(a, _PLAIN) or not isinstance(b, _PLAIN) or a is None or b is None:
+                raise _Unk(f'operator in {canon(n)[:50]}')
+            try:
+                return _BIN[type(n.op)](a, b)
+            except ZeroDivisionError:
+                raise _Raised('ZeroDivisionError') from None
+            except TypeError:
+                raise _Unk(f'operands of {canon(n)[:50]}') from None
+        if isinstance(n, ast.Compare):
+            left = self.ev(n.left, env)
+            for op, c in zip(n.ops, n.comparators):
+                right = self.ev(c, env)
+                if isinstance(op, (ast.In, ast.NotIn)):
+                    if isinstance(right, _Obj):
+                        r = bool(self.method(right, '__contains__', [left]))
+                    elif isinstance(right, (list, tuple, dict, str)):
+                        r = left in right
+                    else:
+                        raise _Unk('membership test')
+                    r = r if isinstance(op, ast.In) else not r
+                else:
+                    try:
+                        r = _CMP[type(op)](left, right)
+                    except TypeError:
+                        raise _Unk(f'comparison {canon(n)[:50]}') from None
+                if not r:
+                    return False
+                left = right
+            return True
+        if isinstance(n, ast.IfExp):
+            return self.ev(n.body if self.ev(n.test, env) else n.orelse, env)
+        if isinstance(n, (ast.Tuple, ast.List)):
+            out = []
+            for x in n.elts:
+                if isinstance(x, ast.Starred):
+                    out += list(self.ev(x.value, env))
+                else:
+                    out.append(self.ev(x, env))
+            return tuple(out) if isinstance(n, ast.Tuple) else out
+        if isinstance(n, (ast.ListComp, ast.GeneratorExp)):
+            res = []
+
+            def loop(i, e):
+                if i == len(n.generators):
+                    res.append(self.ev(n.elt, e))
+                    return
+                g = n.generators[i]
+                it = self.ev(g.iter, e)
+                if not isinstance(it, (list, tuple)):
+                    raise _Unk('iteration over a non-sequence')
+                for item in it:
+                    e2 = dict(e)
+                    self.bind(g.target, item, e2)
+                    if all(self.ev(c, e2) for c in g.ifs):
+                        loop(i + 1, e2)
+            loop(0, env)
+            return res
+        if isinstance(n, ast.JoinedStr):
+            return '<text>'
+        raise _Unk(f'{type(n).__name__} {canon(n)[:50]}')
+
+    def matches(self, v, p, env) -> bool:
+        """structural pattern matching of a model value (no captures: the engine binds none for these patterns)"""
+        if isinstance(p, ast.MatchValue):
+            return v == self.ev(p.value, env)
+        if isinstance(p, ast.MatchSingleton):
+            return v is p.value
+        if isinstance(p, ast.MatchAs) and p.name is None:
+            return True if p.pattern is None else self.matches(v, p.pattern, env)
+        if isinstance(p, ast.MatchOr):
+            return any(self.matches(v, q, env) for q in p.patterns)
+        if isinstance(p, ast.MatchSequence) and not any(isinstance(q, ast.MatchStar) for q in p.patterns):
+            return isinstance(v, (list, tuple)) and len(v) == len(p.patterns) and \
+                all(self.matches(x, q, env) for x, q in zip(v, p.patterns))
+        raise _Unk(f'match pattern {ast.unparse(p)[:40]}')
+
+    _TYPES = {'int': int, 'float': float, 'bool': bool, 'str': str, 'list': list, 'tuple': tuple, 'slice': slice, 'dict': dict,
+              'Real': (int, float), 'Number': (int, float), 'Integral': int, 'Sequence': (list, tuple), 'Iterable': (list, tuple)}
+
+    def isinstance_(self, v, t) -> bool:
+        alts = list(t.elts) if isinstance(t, ast.Tuple) else [t]
+        while any(isinstance(a, ast.BinOp) and isinstance(a.op, ast.BitOr) for a in alts):
+            alts = [x for a in alts for x in ((a.left, a.right) if isinstance(a, ast.BinOp) and isinstance(a.op, ast.BitOr) else (a,))]
+        res = False
+        for a in alts:
+            nme = (dotted_name(a) or '').split('.')[-1]
+            if isinstance(v, _Obj):
+                if v.k is None:
+                    raise _Unk('isinstance of an opaque object')
+                res = res or any(c.name == nme for c in v.k.mro())
+            elif nme in self._TYPES:
+                res = res or isinstance(v, self._TYPES[nme])
+            elif isinstance(v, _PLAIN) and any(c.name == nme for c in self.prog.all_classes()):
+                pass            # a plain value is not an instance of a repository class
+            else:
+                raise _Unk(f'isinstance(..., {canon(a)[:30]})')
+        return res
+
+    def bind(self, t, v, env):
+        if isinstance(t, ast.Name):
+            env[t.id] = v
+        elif isinstance(t, (ast.Tuple, ast.List)) and isinstance(v, (list, tuple)) and len(v) == len(t.elts):
+            for x, y in zip(t.elts, v):
+                self.bind(x, y, env)
+        else:
+            raise _Unk('unpacking')
+
+    def call(self, n: ast.Call, env):
+        f = n.func
+        if isinstance(f, ast.Name) and f.id == '_matches' and len(n.args) == 2 and isinstance(n.args[1], ast.Constant):
+            try:
+                pat = ast.parse(f'match _:\n case {n.args[1].value}:\n  pass').body[0].cases[0].pattern
+            except SyntaxError:
+                raise _Unk('match pattern') from None
+            return self.matches(self.ev(n.args[0], env), pat, env)
+        if isinstance(f, ast.Name) and f.id.startswith('_') and f.id in ('_param', '_cur', '_acc', '_unpack', '_loopvar', '_each',
+                                                                         '_in_loop', '_loop', '_unknown'):
+            raise _Unk(f'value the engine could not follow: {canon(n)[:50]}')
+        if any(k.arg is None for k in n.keywords):
+            raise _Unk('** arguments')
+        tail0 = (dotted_name(f) or '').split('.')[-1]
+        if tail0 == 'cast' and len(n.args) == 2 and not n.keywords:
+            return self.ev(n.args[1], env)
+        if tail0 == 'isinstance' and len(n.args) == 2 and not n.keywords:
+            return self.isinstance_(self.ev(n.args[0], env), n.args[1])
+        pos = []
+        for a in n.args:
+            if isinstance(a, ast.Starred):
+                pos += list(self.ev(a.value, env))
+            else:
+                pos.append(self.ev(a, env))
+        kw = {k.arg: self.ev(k.value, env) for k in n.keywords}
+        if isinstance(f, ast.Attribute) and f.attr in GEOD_SIG and _is_geod(f.value):
+            names = GEOD_SIG[f.attr][1]
+            args = pos + [kw.pop(x) for x in names[len(pos):] if x in kw]
+            if len(args) != 4 or any(k_ not in ('radians', 'return_back_azimuth', 'inplace') for k_ in kw) or \
+                    kw.get('radians') or kw.get('return_back_azimuth') is False:
+                raise _Unk(f'geodesic call {canon(n)[:60]}')
+            res = _vectorised(_inv1 if f.attr == 'inv' else _fwd1, args)
+            if not self.quiet:
+                self.log.append((f.attr, args, self.node_event.get(id(n)), res))
+            return res
+        k = self.ctor_class(n)
+        if k is not None:
+            return self.construct(k, pos, kw)
+        if isinstance(f, ast.Attribute):
+            try:
+                recv = self.ev(f.value, env)
+            except _Unk:
+                recv = None
+                # Class.method(...) / Outer.Inner.method(...): a static or class method called on the class
+                kc = next((c for c in (self.prog.resolve_class_expr(fi_.module, f.value) for fi_ in reversed(self.stack))
+                           if c is not None), None)
+                meth = _method(kc, f.attr)
+                if meth is not None:
+                    decs = [d.split('.')[-1].split('(')[0] for d in meth.decorators()]
+                    if 'classmethod' in decs:
+                        return self.invoke(meth, kc, _Obj(kc, {}), pos, kw)
+                    if 'staticmethod' in decs:
+                        return self.invoke(meth, kc, None, pos, kw)
+                    if pos and isinstance(pos[0], _Obj):
+                        return self.invoke(meth, pos[0].k, pos[0], pos[1:], kw)
+            if isinstance(recv, _Obj):
+                return self.method(recv, f.attr, pos, kw)
+            if isinstance(recv, (list, tuple)):
+                if f.attr in ('index', 'count', 'copy', 'tolist') and not kw:
+                    if f.attr in ('copy', 'tolist'):
+                        return list(recv)
+                    try:
+                        return getattr(recv, f.attr)(*pos)
+                    except ValueError:
+                        raise _Raised('ValueError') from None
+                raise _Unk(f'method {f.attr} of a sequence')
+        tail = (dotted_name(f) or '').split('.')[-1]
+        if tail == 'len' and len(pos) == 1 and isinstance(pos[0], _Obj):
+            return self.method(pos[0], '__len__', [])
+        if tail in _LIB and all(isinstance(x, _PLAIN) or isinstance(x, bool) for x in list(pos) + list(kw.values())):
+            try:
+                return _LIB[tail](*pos, **kw)
+            except _Unk:
+                raise
+            except (TypeError, ValueError, IndexError, ZeroDivisionError) as ex:
+                raise _Unk(f'{tail}: {ex}') from None
+        raise _Unk(f'call of {canon(f)[:50]}')
 
 
-def rule_components(ctx, legs_of):
+# ------------------------------------------------------------------------------------------- the sample tracks
+_TRACKS = [
+    [(-71.0, 42.25), (-87.5, 41.75), (-104.75, 39.5), (-118.25, 34.0)],
+    [(12.5, 55.5), (-73.75, 40.625)],
+    [(151.25, -33.875), (103.875, 1.375), (103.875, 1.375), (55.375, 25.25)],      # a repeated fix: one leg of length 0
+]
+_EPS = 1e-6
+
+
+def _same(a, b) -> bool:
+    return isinstance(a, (int, float)) and isinstance(b, (int, float)) and not isinstance(a, bool) \
+        and not isinstance(b, bool) and abs(a - b) <= _EPS
+
+
+class _Judge:
+    """one obligation per (rule, function, statement); the first scenario that breaks it is its reason"""
+
+    def __init__(self, ctx):
+        self.ctx = ctx
+        self.items: dict = {}
+
+    def __call__(self, rule, where, construct, ok, why_ok, why_bad='', line=0, nontrivial=True):
+        key = (rule, getattr(where, 'file', where), getattr(where, 'qualname', ''), construct)
+        cur = self.items.get(key)
+        if cur is None:
+            self.items[key] = [rule, where, construct, bool(ok), why_ok if ok else why_bad, line, nontrivial, 1]
+        else:
+            cur[7] += 1
+            if cur[3] and not ok:
+                cur[3], cur[4], cur[5] = False, why_bad, line or cur[5]
+
+    def flush(self):
+        for rule, where, construct, ok, why, line, nontrivial, n in self.items.values():
+            self.ctx.ob(rule, where, construct, ok, (f'{why} ({n} scenario(s) on the sample tracks)' if ok else why),
+                        line=line, nontrivial=nontrivial)
+        self.items = {}
+
+
+class _Track:
+    """a sample track in the model, with what the property says about it"""
+
+    def __init__(self, world, gtc, loc_cls, lonf, latf, coords, allow):
+        self.n, self.allow = len(coords), allow
+        self.W = [_Obj(loc_cls, {lonf: lo, latf: la}) for lo, la in coords]
+        for w in self.W:                  # other fields of the way-point class do not matter to a ground track
+            for f_ in loc_cls.all_fields():
+                w.f.setdefault(f_, 0.0)
+        self.coords = coords
+        legs = [_inv1(*coords[k], *coords[k + 1]) for k in range(self.n - 1)]
+        self.az = [l[0] for l in legs]
+        self.baz = [l[1] for l in legs]
+        self.L = [l[2] for l in legs]
+        self.idx = [0.0]
+        for l in self.L:
+            self.idx.append(self.idx[-1] + l)
+        self.total = self.idx[-1]
+        self.gt = world.construct(gtc, [list(self.W), allow])
+
+    def leg_of(self, d):
+        """the leg strictly containing d, or None (outside, or on a way-point)"""
+        for k in range(self.n - 1):
+            if self.idx[k] < d < self.idx[k + 1]:
+                return k
+        return None
+
+    def waypoints_at(self, lon, lat) -> set:
+        return {k for k, (lo, la) in enumerate(self.coords) if _same(lon, lo) and _same(lat, la)}
+
+    def coord_owners(self, v) -> set:
+        return {(k, r) for k, c in enumerate(self.coords) for r, x in zip(('lon', 'lat'), c) if _same(v, x)}
+
+    def az_owners(self, v) -> set:
+        return {k for k, a in enumerate(self.az) if _same(v % 360.0, a % 360.0)}
+
+    def interior(self, d, k):
+        """(forward geodesic, azimuth in [0, 360), arguments of the inverse geodesic it is component [0] of)"""
+        p = _fwd1(*self.coords[k], self.az[k], d - self.idx[k])
+        args = (p[0], p[1], *self.coords[k + 1])
+        return p, _inv1(*args)[0] % 360.0, args
+
+    def beyond(self, d):
+        k = self.n - 2
+        p = _fwd1(*self.coords[k], self.az[k], d - self.idx[k])
+        args = (*self.coords[k + 1], p[0], p[1])
+        return p, _inv1(*args)[0] % 360.0, args
+
+
+def _location_class(prog, m):
+    r = prog.resolve_name(m, 'Location')
+    if r is None or not hasattr(r, 'all_fields'):
+        r = next((c for c in prog.all_classes() if c.name == 'Location'), None)
+    return r
+
+
+def rule_queries(ctx, covered: set):
+    """R2-R6 (see the module header): the public queries of GroundTrack on sample tracks in the free model.
+    `covered` receives the source nodes of the forward-geodesic calls that were evaluated."""
     prog = ctx.prog
     m = prog.module(GT)
-    ini = m.func('GroundTrack.__init__')
-    invs = [c for f, c, k in geod_calls(prog, [ini]) if k == 'inv']
-    coord_names = []
-    ok, why = False, 'leg construction changed: not one inverse-geodesic call over the waypoint sequence'
-    if len(invs) == 1 and len(invs[0].args) == 4:
-        inv = invs[0]
-        kinds = [_slice_kind(a) for a in inv.args]          # as written: the coordinate lists keep their names
-        ok = all(k is not None for k in kinds) and [k[0] for k in kinds] == ['head', 'head', 'tail', 'tail'] \
-            and kinds[0][1] == kinds[2][1] and kinds[1][1] == kinds[3][1] and kinds[0][1] != kinds[1][1]
-        why = 'legs are not (waypoint i, waypoint i+1) pairs over one longitude and one latitude sequence'
-        if ok:
-            coord_names = [kinds[0][1], kinds[1][1]]
-            az = [st for t, st, how in stores_to(ini.node) if norm(t) == 'self.azimuths']
-            ok = len(az) == 1
-            why = 'self.azimuths is not stored exactly once'
-            if ok:
-                st = az[0]
-                if isinstance(st, ast.Assign) and st.value is inv and isinstance(st.targets[0], (ast.Tuple, ast.List)):
-                    pos = [i for i, x in enumerate(st.targets[0].elts) if norm(x) == 'self.azimuths']
-                    ok = pos == [0]
-                else:
-                    comp = _component(ini, st.value)
-                    if comp is None or comp[0] is not inv:
-                        ctx.undecided('C15-R6', ini, norm(st)[:80], 'cannot tell which geodesic result the leg azimuths are')
-                    ok = comp[1] == 0
-                why = 'the leg azimuths are not the forward azimuths (component [0]) of the inverse geodesic'
-    ctx.ob('C15-R6', ini, 'legs are consecutive waypoint pairs; azimuth=[0]', ok,
-           norm(stmt_of(invs[0]))[:110] if ok else why)
-    # the stored waypoints and the coordinates the legs are computed from are one and the same sequence
-    wps = [st for t, st, how in stores_to(ini.node) if norm(t) == 'self.waypoints']
-    srcs = {}
-    for nm in coord_names:
-        d = [st.value for t, st, how in stores_to(ini.node) if isinstance(t, ast.Name) and t.id == nm]
-        if len(d) == 1 and isinstance(d[0], (ast.ListComp, ast.GeneratorExp)) and len(d[0].generators) == 1 \
-                and not d[0].generators[0].ifs:
-            srcs[nm] = norm(d[0].generators[0].iter)
-        elif len(d) == 1 and isinstance(_strip_conv(d[0]), (ast.ListComp, ast.GeneratorExp)):
-            g = _strip_conv(d[0])
-            if len(g.generators) == 1 and not g.generators[0].ifs:
-                srcs[nm] = norm(g.generators[0].iter)
-    if len(wps) != 1 or len(srcs) != 2:
-        ctx.undecided('C15-R6', ini, 'self.waypoints / coordinate lists', 'waypoint bookkeeping of the constructor not recognised')
-    wsrc = norm(wps[0].value)
-    ok = all(s_ in (wsrc, 'self.waypoints') for s_ in srcs.values())
-    ctx.ob('C15-R6', ini, f'self.waypoints = {wsrc[:50]}; coordinates from {sorted(set(srcs.values()))}', ok,
-           'legs, cumulative index and stored waypoints describe the same list' if ok else
-           (f'the track stores `{wsrc[:60]}` but computes leg azimuths and the cumulative index from `{sorted(set(srcs.values()))[0]}`: '
-            'when the two differ (repeated fixes removed, points filtered) location() projects from the wrong waypoint and '
-            'step(a, b) is no longer location(a + b)'), line=wps[0].lineno)
-    idx = [st for t, st, how in stores_to(ini.node) if norm(t) == 'self.index']
-    ok, why = len(idx) == 1 and len(invs) == 1, 'cumulative waypoint index is not stored exactly once'
-    if ok:
-        D = _running_sum_from_zero(idx[0].value)
-        bare = _strip_conv(idx[0].value)
-        if D is None and isinstance(bare, ast.Call) and call_name(bare).split('.')[-1] in ('accumulate', 'cumsum') \
-                and len(bare.args) == 1 and not bare.keywords:
-            D, ok, why = None, False, ('the cumulative index does not start at 0: entry i is then the distance to '
-                                       'waypoint i + 1 and every leg is interpolated from the wrong origin')
-        elif D is None:
-            ctx.undecided('C15-R6', ini, norm(idx[0])[:90], 'form of the cumulative index not recognised')
-        if D is not None:
-            comp = _component(ini, D)
-            ok = comp is not None and comp[0] is invs[0] and comp[1] == 2
-            why = 'the cumulative index does not sum the leg lengths (component [2] of the inverse geodesic)'
-    ctx.ob('C15-R6', ini, 'cumulative index = running sum of leg lengths from 0', ok,
-           norm(idx[0].value) if ok else why)
-    td = m.func('GroundTrack.total_distance')
-    r = [n for n in walk_no_nested(td.node) if isinstance(n, ast.Return)]
-    ok = len(r) == 1 and r[0].value is not None and norm(_resolve_locals(td, r[0].value)) in (
-        'self.index[-1]', 'self.index[len(self.index) - 1]')
-    ctx.ob('C15-R6', td, 'total distance is the last cumulative value', ok,
-           'self.index[-1]' if ok else 'total distance changed', nontrivial=False)
-    # the azimuth reported for an interpolated point is measured at that point, towards the waypoint that ends the leg
-    loc = m.func('GroundTrack.location')
-    for f, c, k in geod_calls(prog, [loc]):
-        if k != 'inv' or len(c.args) < 4:
-            continue
-        a = [_resolve_locals(loc, x) for x in c.args[:4]]
-        ends = [x.value if isinstance(x, ast.Attribute) else x for x in a[2:]]
-        ok = all(isinstance(x, ast.Subscript) and norm(x.value) == 'self.waypoints' for x in ends) \
-            and norm(ends[0]) == norm(ends[1])
-        why = 'the azimuth is not measured towards one waypoint of the track'
-        if ok:
-            legs = legs_of.get(loc.qualname, [])
-            if not legs:
-                ctx.undecided('C15-R6', loc, norm(stmt_of(c))[:80], 'the leg this point is interpolated on is not known')
-            ok = all(_idx_key(ends[0].slice) == _idx_key(l, 1) for l in legs)
-            why = (f'the azimuth is measured towards waypoint [{norm(ends[0].slice)}], which is not the end of the leg '
-                   'the point was interpolated on')
-        if ok:
-            # component [0] of this geodesic is what the returned point carries, and it is measured at that point
-            used = []
-            for r in walk_no_nested(loc.node):
-                if not (isinstance(r, ast.Return) and isinstance(r.value, ast.Call)):
+    gtc = m.cls('GroundTrack')
+    loc_cls = _location_class(prog, m)
+    if loc_cls is None:
+        ctx.undecided('C15-R5', (m.relpath, 'GroundTrack'), 'Location', 'class of the way-points not found')
+    lonf = next((f for f in loc_cls.all_fields() if ident_role(f) == 'lon'), None)
+    latf = next((f for f in loc_cls.all_fields() if ident_role(f) == 'lat'), None)
+    if lonf is None or latf is None:
+        ctx.undecided('C15-R5', (loc_cls.file, loc_cls.name), 'fields', 'longitude / latitude fields of a way-point not found')
+    world = _World(prog)
+    J = _Judge(ctx)
+    need = {nme: _method(gtc, nme) for nme in ('step', 'location', '__getitem__', '__contains__')}
+    for nme, fi in need.items():
+        if fi is None:
+            ctx.undecided('C15-R3', (m.relpath, 'GroundTrack'), nme, 'public query of the ground track not found')
+    opt = {nme: _method(gtc, nme) for nme in ('__len__', 'total_distance', 'waypoint_distance', 'lookup_waypoint',
+                                              'great_circle')}
+    init = _method(gtc, '__init__') or (m.relpath, 'GroundTrack')
+    stats = {'queries': 0, 'raw_negative': 0, 'raw_positive': 0}
+
+    def query(t, nme, *args):
+        """('ret', value, log) | ('raise', text, log); an attribute that is a property is read"""
+        fi = need.get(nme) or opt.get(nme)
+        world.log = []
+        stats['queries'] += 1
+        try:
+            if any(d.split('.')[-1] in ('property', 'cached_property') for d in fi.decorators()):
+                return 'ret', world.invoke(fi, gtc, t.gt, []), world.log
+            return 'ret', world.invoke(fi, gtc, t.gt, list(args)), world.log
+        except _Raised as ex:
+            return 'raise', ex.what, world.log
+        except _Unk as ex:
+            ctx.undecided('C15-R3', fi, f'{nme}({", ".join(f"{a:g}" for a in args)}) on a {t.n}-way-point track',
+                          f'cannot be evaluated in the model: {ex}')
+
+    def point(fi, what, res):
+        """(lon, lat, azimuth) of a handed-out point; R2 on it"""
+        loc = res.f.get('location') if isinstance(res, _Obj) else None
+        az = res.f.get('azimuth') if isinstance(res, _Obj) else None
+        if not isinstance(loc, _Obj) or not isinstance(loc.f.get(lonf), (int, float)) or not isinstance(loc.f.get(latf), (int, float)) \
+                or not isinstance(az, (int, float)) or isinstance(az, bool):
+            ctx.undecided('C15-R2', fi, what, f'the value handed out is not a point with a location and an azimuth: {res!r:.80}')
+        J('C15-R2', fi, f'{fi.name}: azimuths are reported in [0, 360)', 0.0 <= az < 360.0,
+          'every point handed out carries an azimuth reduced modulo 360',
+          f'{what} hands out azimuth {az:g}: the raw geodesic azimuth (-180, 180] reaches the caller without being '
+          'reduced modulo 360 (neither the point constructor nor this site normalises it)')
+        return loc.f[lonf], loc.f[latf], az
+
+    def site(ev_, fi):
+        if ev_ is not None:
+            covered.add(id(ev_.node))
+            return ev_.fi, getattr(ev_.node, 'lineno', 0)
+        return fi, 0
+
+    def legs(t, fi, what, log, d, want=None, want_what=''):
+        """R5 on every forward geodesic evaluated for this query: start way-point, leg azimuth and distance origin are
+        one leg (and, when the property fixes it, that leg is `want`).  True when all were coherent."""
+        fine = True
+        construct = 'forward geodesic: start way-point, leg azimuth and distance origin belong to one leg'
+        for kind, args, ev_, res in log:
+            if kind != 'fwd' or any(isinstance(a, (list, tuple)) for a in args):
+                continue
+            where, line = site(ev_, fi)
+            o0, o1, ka = t.coord_owners(args[0]), t.coord_owners(args[1]), t.az_owners(args[2])
+            back = {k for k in range(t.n - 1) if _same(args[2] % 360.0, t.baz[k] % 360.0)}
+            if o0 and o1 and not ka and back:
+                J('C15-R5', where, construct, False, '', f'{what}: the azimuth of the forward geodesic is the back azimuth '
+                  f'(component [1] of the inverse geodesic) of leg {sorted(back)}: the point is projected away from the track', line)
+                fine = False
+                continue
+            if not o0 or not o1 or not ka:
+                ctx.undecided('C15-R5', where, what, 'forward geodesic from a start point / with an azimuth that is not a '
+                              f'way-point / a leg azimuth of the track: fwd({", ".join(f"{a:g}" for a in args)})')
+            start = {k for k, r in o0 if r == 'lon'} & {k for k, r in o1 if r == 'lat'}
+            if not start:
+                J('C15-R5', where, construct, False, '', f'{what}: the forward geodesic starts at ({sorted(o0)[0][1]} of way-point '
+                  f'{sorted(o0)[0][0]}, {sorted(o1)[0][1]} of way-point {sorted(o1)[0][0]}), which is not (longitude, latitude) '
+                  'of one way-point', line)
+                fine = False
+                continue
+            good = {k for k in start & ka if _same(args[3], d - t.idx[k])}
+            if not good:
+                origin = [j for j in range(t.n) if _same(d - args[3], t.idx[j])]
+                J('C15-R5', where, construct, False, '',
+                  f'{what}: starts at way-point {sorted(start)}, with the azimuth of leg {sorted(ka)}, by the distance beyond '
+                  f'{"way-point " + str(origin) if origin else "no way-point of the track"} — the forward geodesic starts at one '
+                  'way-point but uses the azimuth / distance origin of another leg: points leave the great circle', line)
+                fine = False
+                continue
+            if want is not None and want not in good:
+                J('C15-R5', where, construct, False, '', f'{what}: evaluated on leg {sorted(good)}, {want_what} is leg {want}', line)
+                fine = False
+                continue
+            if want is None and d <= t.total + _EPS and not any(t.idx[k] - _EPS <= d <= t.idx[k + 1] + _EPS for k in good):
+                J('C15-R5', where, construct, False, '', f'{what}: evaluated on leg {sorted(good)}, which does not contain the '
+                  'distance: the leg is continued beyond its end way-point, where the track turns', line)
+                fine = False
+                continue
+            J('C15-R5', where, construct, True, 'start point, azimuth and distance origin belong to one leg', line=line)
+        return fine
+
+    def judge_point(t, fi, what, res, log, d, expect, statement, leg, leg_what):
+        lon, lat, az = point(fi, what, res)
+        if not legs(t, fi, what, log, d, leg, leg_what) or expect is None:
+            return
+        (elon, elat, _), eaz, einv = expect
+        raw = next((r[0] for kind, args, ev_, r in log if kind == 'inv' and not isinstance(r[0], list)), None)
+        if raw is not None:
+            stats['raw_negative' if raw < 0 else 'raw_positive'] += 1
+        if _same(lon, elon) and _same(lat, elat) and _same(az, eaz):
+            J('C15-R6', fi, statement, True, 'equals the reference formula in the free model of the geodesic')
+            return
+        fw = [r for kind, args, ev_, r in log if kind == 'fwd']
+        if not fw:
+            ks = t.waypoints_at(lon, lat)
+            if ks:
+                J('C15-R6', fi, statement, False, '', f'{what} hands out way-point {sorted(ks)} itself instead of the point at that '
+                  'distance (the distance is clamped to a way-point)')
+                return
+            ctx.undecided('C15-R6', fi, what, 'the location handed out is not the result of a forward geodesic')
+        if not (_same(lon, elon) and _same(lat, elat)):
+            if any(_same(lon, r[1]) and _same(lat, r[0]) for r in fw):
+                J('C15-R6', fi, statement, False, '', f'{what}: the location is built from components ([1], [0]) of the '
+                  'forward geodesic: longitude and latitude are exchanged')
+                return
+            if any(_same(lon, r[0]) and _same(lat, r[1]) for r in fw):
+                ctx.undecided('C15-R6', fi, what, 'a coherent forward geodesic that is not the reference one')
+            J('C15-R6', fi, statement, False, '', f'{what}: the location handed out is not (component [0], component [1]) of '
+              'the forward geodesic evaluated for it')
+            return
+        # right location, other azimuth: which inverse geodesic was it taken from?
+        for kind, args, ev_, r in log:
+            if kind != 'inv' or isinstance(r[0], list):
+                continue
+            for i in (0, 1):
+                if _same(az, r[i] % 360.0) or _same(az, r[i]):
+                    if _same(r[i] % 360.0, eaz):
+                        return          # the reference azimuth, not reduced modulo 360: that is R2's finding above
+                    ends = [('the located point' if (_same(x, lon) and _same(y, lat)) else
+                             f'way-point {sorted(t.waypoints_at(x, y))}' if t.waypoints_at(x, y) else f'({x:g}, {y:g})')
+                            for x, y in ((args[0], args[1]), (args[2], args[3]))]
+                    J('C15-R6', fi, statement, False, '',
+                      f'{what}: the azimuth reported is component [{i}] of the inverse geodesic from {ends[0]} to {ends[1]}; '
+                      f'the property wants {leg_what}')
+                    return
+        if any(kind == 'inv' and not isinstance(r[0], list) and
+               (all(_same(x, y) for x, y in zip(args, einv)) or all(_same(x, y) for x, y in zip(args, einv[2:] + einv[:2])))
+               for kind, args, ev_, r in log):
+            J('C15-R6', fi, statement, False, '', f'{what}: the right inverse geodesic is evaluated but the azimuth handed out '
+              f'is {az:g}, not its forward azimuth {eaz:g} (reduced modulo 360)')
+            return
+        ctx.undecided('C15-R6', fi, what, f'azimuth {az:g} differs from the reference {eaz:g} in a way that is not recognised')
+
+    try:
+        _sample_queries(ctx, world, gtc, loc_cls, lonf, latf, need, opt, init, query, point, judge_point, J)
+    finally:
+        J.flush()           # what was established before something could not be evaluated stands
+    ctx.stats['model_queries'] = stats['queries']
+    if all(o.ok for o in ctx.obligations if o.rule.startswith('C15-R')):
+        # (on a tree that breaks the rules the points never get as far as being compared)
+        ctx.control('C15-R2', stats['raw_negative'] >= 4 and stats['raw_positive'] >= 4,
+                    f'the sample tracks exercise negative and positive raw azimuths ({stats["raw_negative"]} / {stats["raw_positive"]})')
+
+
+def _sample_queries(ctx, world, gtc, loc_cls, lonf, latf, need, opt, init, query, point, judge_point, J):
+    for coords in _TRACKS:
+        n = len(coords)
+        for allow in (False, True):
+            try:
+                t = _Track(world, gtc, loc_cls, lonf, latf, coords, allow)
+            except _Raised as ex:
+                ctx.undecided('C15-R6', init, f'{n} way-points', f'the constructor leaves by raise in the model: {ex.what}')
+            except _Unk as ex:
+                ctx.undecided('C15-R6', init, f'{n} way-points', f'the constructor cannot be evaluated in the model: {ex}')
+            total = t.total
+            real = [k for k in range(n - 1) if t.L[k] > 0]            # legs with an interior
+            inside = [t.idx[k] + f * t.L[k] for k in real for f in (0.25, 0.5, 0.875)]
+            hits = sorted(set(t.idx))
+            outside = [-40.0, -0.5, total + 0.5, total + 312.0]
+            # ---- range test, sizes, cumulative distances (public accessors)
+            fi = need['__contains__']
+            for d in inside + hits + outside:
+                k_, v, _ = query(t, '__contains__', d)
+                J('C15-R4', fi, 'range is [first, last] cumulative distance',
+                  k_ == 'ret' and bool(v) == (t.idx[0] <= d <= t.idx[-1]),
+                  'a distance is on the track exactly when it lies between the first and the last cumulative distance',
+                  f'{d:g} is reported {"on" if k_ == "ret" and v else "off"} a track of length {total:g}', nontrivial=False)
+            if opt['__len__'] is not None:
+                k_, v, _ = query(t, '__len__')
+                J('C15-R6', opt['__len__'], 'len() is the number of way-points', k_ == 'ret' and v == n, 'way-point count',
+                  f'a track made from {n} way-points reports length {v!r}: the stored way-points are not the sequence the '
+                  'legs and the cumulative index are computed from', nontrivial=False)
+            if opt['total_distance'] is not None:
+                k_, v, _ = query(t, 'total_distance')
+                J('C15-R6', opt['total_distance'], 'total distance is the sum of the leg lengths (component [2] of the '
+                  'inverse geodesic over consecutive way-points)', k_ == 'ret' and _same(v, total),
+                  'last value of the running sum from 0', f'a track with legs {t.L} reports total distance {v!r}')
+            if opt['waypoint_distance'] is not None:
+                for i in range(n):
+                    k_, v, _ = query(t, 'waypoint_distance', i)
+                    J('C15-R6', opt['waypoint_distance'], 'cumulative distance of way-point i is the sum of the legs before it, '
+                      'starting at 0', k_ == 'ret' and _same(v, t.idx[i]), 'running sum of leg lengths from 0',
+                      f'way-point {i} of a track with legs {t.L} is reported at {v!r}: the cumulative index does not start at 0 '
+                      'with the summed leg lengths, every leg is interpolated from the wrong origin')
+            if opt['lookup_waypoint'] is not None:
+                fi = opt['lookup_waypoint']
+                for d in inside:
+                    k_, v, _ = query(t, 'lookup_waypoint', d)
+                    J('C15-R6', fi, 'finds the way-point at or after the distance',
+                      k_ == 'ret' and v == _bisect.bisect_left(t.idx, d),
+                      'first way-point whose cumulative distance is not below the distance',
+                      f'lookup({d:g}) on cumulative distances {t.idx} gives {v!r}', nontrivial=False)
+                for d in outside:
+                    k_, v, _ = query(t, 'lookup_waypoint', d)
+                    J('C15-R4', fi, 'out-of-range distance refused before indexing', k_ == 'raise', 'raises',
+                      f'lookup({d:g}) on a track of length {total:g} answers {v!r}: an out-of-range distance reaches the '
+                      'bisect lookup')
+            # ---- way-points
+            fi = need['__getitem__']
+            for i in range(n - 1):
+                k_, v, log = query(t, '__getitem__', i)
+                if k_ != 'ret':
+                    ctx.undecided('C15-R6', fi, f'[{i}]', f'way-point {i} of {n} cannot be read: {v}')
+                lon, lat, az = point(fi, f'[{i}]', v)
+                J('C15-R6', fi, 'way-point i is handed out with the azimuth of the leg that starts there',
+                  i in t.waypoints_at(lon, lat) and _same(az, t.az[i] % 360.0), 'own location, own leg azimuth',
+                  f'[{i}] hands out way-point {sorted(t.waypoints_at(lon, lat))} with azimuth {az:g} (leg {sorted(t.az_owners(az))}): '
+                  'the stored way-points and the leg azimuths are not one sequence')
+            # ---- location
+            fi = need['location']
+            for d in outside:
+                k_, v, log = query(t, 'location', d)
+                if k_ == 'ret' and allow and d > total:
+                    # not refused although beyond the end: with overstepping allowed the property then wants the continuation
+                    judge_point(t, fi, f'location({d:g}) beyond a track of length {total:g}', v, log, d, t.beyond(d),
+                                'a point beyond the end continues the final leg from its first way-point, reported with the '
+                                'azimuth from the last way-point to the point', n - 2,
+                                'the final leg (the azimuth from the last way-point to the overstepped point)')
                     continue
-                az = r.value.args[1] if len(r.value.args) >= 2 else next(
-                    (kw.value for kw in r.value.keywords if kw.arg == 'azimuth'), None)
-                comp = _component(loc, az) if az is not None else None
-                if comp is not None and comp[0] is c:
-                    used.append((r, comp[1]))
-            if not used:
-                ctx.undecided('C15-R6', loc, norm(stmt_of(c))[:80], 'cannot tell where the result of this geodesic goes')
-            ok = all(i == 0 for _, i in used)
-            why = 'the returned point carries the back azimuth / distance of this geodesic, not its forward azimuth'
-            for r, _ in used:
-                pts = [x for x in ast.walk(_resolve_locals(loc, r.value.args[0])) if isinstance(x, ast.Call)
-                       and call_name(x).split('.')[-1] == 'Location' and len(x.args) >= 2] if r.value.args else []
-                if ok and pts and not any(norm(_resolve_locals(loc, p.args[0])) == norm(a[0]) and
-                                          norm(_resolve_locals(loc, p.args[1])) == norm(a[1]) for p in pts):
-                    ok, why = False, 'the azimuth is measured at a different point from the one returned'
-        ctx.ob('C15-R6', loc, 'azimuth taken at the located point towards the next waypoint', ok,
-               norm(stmt_of(c))[:100] if ok else why, line=c.lineno)
+                J('C15-R4', fi, 'location() refuses a distance outside the track', k_ == 'raise', 'raises',
+                  f'location({d:g}) on a track of length {total:g} hands out {v!r:.90}: an out-of-range distance is silently '
+                  'clamped to an end way-point instead of being refused')
+            for d in hits:
+                k_, v, log = query(t, 'location', d)
+                if k_ != 'ret':
+                    J('C15-R4', fi, 'location() answers every distance on the track', False, '',
+                      f'location({d:g}) (a way-point of the track) is refused: {v}')
+                    continue
+                judge_point(t, fi, f'location({d:g})', v, log, d, None, '', None, '')
+                if not any(kind == 'fwd' for kind, *_ in log):
+                    lon, lat, az = point(fi, f'location({d:g})', v)
+                    here = {k for k in t.waypoints_at(lon, lat) if _same(t.idx[k], d)}
+                    J('C15-R6', fi, 'the point at the cumulative distance of a way-point is that way-point', bool(here),
+                      'own way-point', f'location({d:g}) hands out way-point {sorted(t.waypoints_at(lon, lat))}, the way-point at '
+                      f'that distance is {[k for k in range(n) if _same(t.idx[k], d)]}')
+            for d in inside:
+                k = t.leg_of(d)
+                k_, v, log = query(t, 'location', d)
+                if k_ != 'ret':
+                    J('C15-R4', fi, 'location() answers every distance on the track', False, '',
+                      f'location({d:g}) on a track of length {total:g} is refused: {v}')
+                    continue
+                J('C15-R4', fi, 'location() answers every distance on the track', True, 'returns a point')
+                judge_point(t, fi, f'location({d:g}) on leg {k} of {n - 1}', v, log, d, t.interior(d, k),
+                            'the point at distance d is the forward geodesic on the leg that contains d, reported with the '
+                            'azimuth from there to the way-point that ends the leg',
+                            k, 'the leg that contains the distance (the azimuth towards the way-point that ends it)')
+            # ---- step
+            fi = need['step']
+            for a, b in ((-1.0, 5.0), (5.0, -1.0), (-2.0, -3.0), (-1.0, total + 50.0)):
+                k_, v, _ = query(t, 'step', a, b)
+                J('C15-R4', fi, 'negative distances refused', k_ == 'raise', 'raises',
+                  f'step({a:g}, {b:g}) hands out {v!r:.90}: a negative start distance or step is no longer refused',
+                  nontrivial=False)
+            steps = []
+            for k in real:
+                lo, L = t.idx[k], t.L[k]
+                steps += [(lo + 0.25 * L, 0.25 * L), (lo + 0.25 * L, 0.0), (lo + 0.125 * L, 0.75 * L), (lo + 0.5 * L, 0.5 * L)]
+                if k == 0 or t.L[k - 1] > 0:
+                    steps.append((lo, 0.5 * L))
+            for a, b in steps:
+                k_, v, log = query(t, 'step', a, b)
+                k2, v2, _ = query(t, 'location', a + b)
+                what = f'step({a:g}, {b:g}) on a track of length {total:g}'
+                if k_ != 'ret':
+                    J('C15-R3', fi, 'step(a, b) is location(a + b) for a step inside one leg', False, '',
+                      f'{what} is refused ({v}) although {a + b:g} lies on the track and no way-point is crossed')
+                    continue
+                point(fi, what, v)
+                J('C15-R3', fi, 'step(a, b) is location(a + b) for a step inside one leg', k2 == 'ret' and v == v2,
+                  'the same point, by value', f'{what} hands out {v!r:.100}, location({a + b:g}) is {v2!r:.100}: stepping '
+                  'from a by b is not locating a + b')
+            for k, k2_ in zip(real, real[1:]):
+                a, b = t.idx[k] + 0.5 * t.L[k], 0.5 * t.L[k] + (t.idx[k2_] - t.idx[k + 1]) + 0.25 * t.L[k2_]
+                k_, v, log = query(t, 'step', a, b)
+                if k_ == 'ret':
+                    k2, v2, _ = query(t, 'location', a + b)
+                    point(fi, f'step({a:g}, {b:g})', v)
+                    J('C15-R3', fi, 'a step across a way-point is refused or is location(a + b)', k2 == 'ret' and v == v2,
+                      'the same point, by value', f'step({a:g}, {b:g}) hands out {v!r:.100}, location({a + b:g}) is {v2!r:.100}')
+            for a, b in ((total - 16.0, 48.0), (total, 24.0), (total + 10.0, 7.0), (0.0, total + 96.0),
+                         (t.idx[-2] + 0.5 * t.L[-1], 0.5 * t.L[-1] + 120.0)):
+                k_, v, log = query(t, 'step', a, b)
+                what = f'step({a:g}, {b:g}) beyond a track of length {total:g}'
+                if not allow:
+                    J('C15-R4', fi, 'a step beyond the track is refused when overstepping is not allowed', k_ == 'raise',
+                      'raises', f'{what} hands out {v!r:.90} although overstepping is not allowed')
+                    continue
+                if k_ != 'ret':
+                    J('C15-R4', fi, 'a step beyond the track is answered when overstepping is allowed', False, '',
+                      f'{what} is refused ({v}) although overstepping is allowed')
+                    continue
+                J('C15-R4', fi, 'a step beyond the track is answered when overstepping is allowed', True, 'returns a point')
+                judge_point(t, fi, what, v, log, a + b, t.beyond(a + b),
+                            'a step beyond the end continues the final leg from its first way-point by (a + b) - its '
+                            'cumulative distance, reported with the azimuth from the last way-point to the point',
+                            n - 2, 'the final leg (the azimuth from the last way-point to the overstepped point)')
+            if opt['great_circle'] is not None and n == 2:
+                fi = opt['great_circle']
+                world.log = []
+                try:
+                    g = world.invoke(fi, gtc, _Obj(gtc, {}), [t.W[0], t.W[1]])
+                    tot = world.method(g, 'total_distance', []) if opt['total_distance'] is not None and not any(
+                        'property' in d for d in opt['total_distance'].decorators()) else \
+                        world.invoke(opt['total_distance'], gtc, g, []) if opt['total_distance'] is not None else None
+                    first = world.method(g, '__getitem__', [0])
+                except (_Unk, _Raised) as ex:
+                    ctx.undecided('C15-R6', fi, 'great_circle(start, end)', f'cannot be evaluated in the model: {ex}')
+                lon, lat, az = point(fi, 'great_circle(start, end)[0]', first)
+                J('C15-R6', fi, 'great_circle(start, end) is the track from start to end',
+                  (tot is None or _same(tot, total)) and 0 in t.waypoints_at(lon, lat) and _same(az, t.az[0] % 360.0),
+                  'length is the geodesic distance between the end points, first point is the start',
+                  f'length {tot!r} (geodesic {total:g}), first way-point {sorted(t.waypoints_at(lon, lat))}')
+
+
+def rule_mission(ctx):
+    """R6 (mission): Mission.gc_distance in the free model.  The other memoised properties of the mission (the airport
+    positions) are its inputs; every other field is given its default and then a generic non-default value."""
+    prog = ctx.prog
     mi = prog.module(MI)
-    gd = mi.func('Mission.gc_distance')
-    r = [n for n in walk_no_nested(gd.node) if isinstance(n, ast.Return)]
-    ginv = [c for f, c, k in geod_calls(prog, [gd]) if k == 'inv']
-    comp = _component(gd, r[0].value) if len(r) == 1 and r[0].value is not None else None
-    if comp is None or len(ginv) != 1 or comp[0] is not ginv[0]:
-        ctx.undecided('C15-R6', gd, norm(r[0])[:80] if r else 'return', 'cannot tell which geodesic result the mission distance is')
-    ok = comp[1] == 2
-    ctx.ob('C15-R6', gd, 'mission distance is component [2] of the inverse geodesic', ok,
-           'distance component' if ok else f'gc_distance returns component [{comp[1]}] of the inverse geodesic (an azimuth), not the distance')
-    args = [norm(_resolve_locals(gd, a)) for a in ginv[0].args]
-    ok = len(args) == 4 and args[0].startswith('self.origin_position') and args[1].startswith('self.origin_position') \
-        and args[2].startswith('self.destination_position') and args[3].startswith('self.destination_position')
-    ctx.ob('C15-R6', gd, 'distance is between origin and destination', ok,
-           'origin pair then destination pair' if ok else 'end points of the mission distance are mixed up',
-           nontrivial=False)
+    mc = mi.cls('Mission')
+    gd = _method(mc, 'gc_distance')
+    if gd is None:
+        ctx.undecided('C15-R6', (mi.relpath, 'Mission'), 'gc_distance', 'the mission distance is no longer a member of Mission')
+    memo = {nme for c in mc.mro() for nme, meth in c.methods.items()
+            if any('cached_property' in d or d.split('.')[-1] == 'property' for d in meth.decorators()) and nme != gd.name}
+    pos_names = [nme for nme in ('origin_position', 'destination_position') if nme in memo]
+    if len(pos_names) != 2:
+        ctx.undecided('C15-R6', gd, 'origin_position / destination_position', 'the airport positions are no longer properties of Mission')
+    world = _World(prog, inline=lambda fi: fi.file.startswith('src/') and not (fi.cls is not None and fi.cls.is_subclass_of(mc.name)
+                                                                               and fi.name in memo))
+    rk = prog.resolve_class_expr(mi, _method(mc, pos_names[0]).node.returns) if _method(mc, pos_names[0]).node.returns is not None else None
+    if rk is None:
+        rk = next((c for c in prog.all_classes() if c.name == 'Position'), None)
+    if rk is None:
+        ctx.undecided('C15-R6', gd, 'Position', 'class of an airport position not found')
+    lonf = next((f for f in rk.all_fields() if ident_role(f) == 'lon'), None)
+    latf = next((f for f in rk.all_fields() if ident_role(f) == 'lat'), None)
+    if lonf is None or latf is None:
+        ctx.undecided('C15-R6', gd, rk.name, 'longitude / latitude fields of a position not found')
+
+    def generic(ann: str):
+        a = ann.replace(' ', '')
+        for ty, v in (('bool', True), ('int', 1234), ('float', 1234.5), ('str', 'XYZ')):
+            if a == ty or a.startswith(ty + '|') or a.endswith('|' + ty) or f'[{ty}]' in a or f'|{ty}|' in a:
+                return v
+        return _Obj(None, {})
+    dflt = {}
+    for c in reversed(mc.mro()):
+        dflt.update({f: d for f, d in c.class_assignments().items() if d is not None})
+    ends = [(-71.0, 42.25, 6.0), (-118.25, 34.0, 38.0)]
+    n = 0
+    for variant in ('defaults', 'generic'):
+        for o, d in (ends, ends[::-1]):
+            fields = {}
+            for f, ann in mc.all_fields().items():
+                v = generic(ast.unparse(ann))
+                if variant == 'defaults' and f in dflt:
+                    try:
+                        v = world.ev(dflt[f], {})
+                    except (_Unk, _Raised):
+                        pass
+                fields[f] = v
+            for nme, (lo, la, alt) in zip(pos_names, (o, d)):
+                p = _Obj(rk, {f: alt for f in rk.all_fields()})
+                p.f[lonf], p.f[latf] = lo, la
+                fields[nme] = p
+            obj = _Obj(mc, fields)
+            world.log = []
+            try:
+                v = world.invoke(gd, mc, obj, [])
+            except _Raised as ex:
+                v = f'raise {ex.what}'
+            except _Unk as ex:
+                ctx.undecided('C15-R6', gd, f'gc_distance ({variant})', f'cannot be evaluated in the model: {ex}')
+            want = _inv1(o[0], o[1], d[0], d[1])
+            n += 1
+            comp = next((i for i in (0, 1) if _same(v, want[i])), None)
+            ctx.ob('C15-R6', gd, 'the mission distance is component [2] of the inverse geodesic between the origin and the '
+                   'destination position, whatever else the mission holds', _same(v, want[2]),
+                   'distance of the geodesic between the two airport positions; the same in both directions'
+                   if _same(v, want[2]) else
+                   (f'gc_distance returns component [{comp}] of the inverse geodesic (an azimuth), not the distance' if comp is not None
+                    else f'with {"default" if variant == "defaults" else "non-default"} values in the other fields gc_distance '
+                    f'is {v!r:.60}, the geodesic between the airport positions is {want[2]:g}: the mission distance is taken from '
+                    'something that is not the WGS-84 geodesic between its airports (not symmetric, not the length of the ground track)'))
+    ctx.floor('C15-R6/mission', n, 4, 'evaluations of Mission.gc_distance in the model')
 
 
 # ----------------------------------------------------------------- R8 -----
